@@ -1357,3 +1357,2785 @@ def parse_int(s):
     if s.startswith('0b'):
         return int(s[2:], 2)
     return int(s, 10)
+
+
+# ---------------------------------------------------------------------------------------------
+# 4. Types and unification
+# ---------------------------------------------------------------------------------------------
+
+INT = {'u8': (8, False), 'u16': (16, False), 'u32': (32, False), 'u64': (64, False), 'u128': (128, False),
+       'usize': (64, False), 'i8': (8, True), 'i16': (16, True), 'i32': (32, True), 'i64': (64, True),
+       'i128': (128, True), 'isize': (64, True)}
+
+
+class TV(object):
+    """Inference variable.  kind 'int' = must become an integer type (unsuffixed literal)."""
+    __slots__ = ('ref', 'kind')
+
+    def __init__(self, kind='any'):
+        self.ref = None
+        self.kind = kind
+
+
+def prune(t):
+    while isinstance(t, TV) and t.ref is not None:
+        t = t.ref
+    return t
+
+
+def is_int(t):
+    t = prune(t)
+    return isinstance(t, str) and t in INT
+
+
+def show_type(t):
+    t = prune(t)
+    if isinstance(t, TV):
+        return '{integer}' if t.kind == 'int' else '_'
+    if isinstance(t, str):
+        return t
+    if t[0] == 'tuple':
+        return '(' + ', '.join(show_type(x) for x in t[1]) + ')'
+    if t[0] in ('record', 'enum', 'opaque'):
+        return t[1]
+    if t[0] == 'fn':
+        return 'fn(' + ', '.join(show_type(x) for x in t[1]) + ') -> ' + show_type(t[2])
+    return t[0] + '<' + ', '.join(show_type(x) for x in t[1:]) + '>'
+
+
+def unify(a, b, where):
+    a = prune(a)
+    b = prune(b)
+    if a is b:
+        return
+    if isinstance(a, TV):
+        if isinstance(b, TV):
+            if a.kind == 'int':
+                b.kind = 'int'
+            a.ref = b
+            return
+        if a.kind == 'int' and not (isinstance(b, str) and (b in INT or b == 'never')):
+            raise Rs2vError('%s: type mismatch: integer literal vs %s' % (where, show_type(b)))
+        if b != 'never':
+            a.ref = b
+        return
+    if isinstance(b, TV):
+        return unify(b, a, where)
+    if a == 'never' or b == 'never':
+        return
+    if isinstance(a, str) or isinstance(b, str):
+        if a != b:
+            raise Rs2vError('%s: type mismatch: %s vs %s' % (where, show_type(a), show_type(b)))
+        return
+    if a[0] != b[0]:
+        raise Rs2vError('%s: type mismatch: %s vs %s' % (where, show_type(a), show_type(b)))
+    if a[0] in ('record', 'enum', 'opaque'):
+        if a[1] != b[1]:
+            raise Rs2vError('%s: type mismatch: %s vs %s' % (where, show_type(a), show_type(b)))
+        return
+    if a[0] == 'tuple':
+        if len(a[1]) != len(b[1]):
+            raise Rs2vError('%s: tuple arity mismatch: %s vs %s' % (where, show_type(a), show_type(b)))
+        for x, y in zip(a[1], b[1]):
+            unify(x, y, where)
+        return
+    if a[0] == 'fn':
+        if len(a[1]) != len(b[1]):
+            raise Rs2vError('%s: closure arity mismatch' % where)
+        for x, y in zip(a[1], b[1]):
+            unify(x, y, where)
+        unify(a[2], b[2], where)
+        return
+    for x, y in zip(a[1:], b[1:]):
+        unify(x, y, where)
+
+
+def coq_type(t, where):
+    t = prune(t)
+    if isinstance(t, TV):
+        if t.kind == 'int':
+            return 'Z'
+        raise Rs2vError('%s: cannot infer a type needed in the Coq signature' % where)
+    if isinstance(t, str):
+        if t in INT:
+            return 'Z'
+        if t == 'bool':
+            return 'bool'
+        if t == 'unit':
+            return 'unit'
+        if t == 'str':
+            return 'string'
+        raise Rs2vError('%s: type `%s` has no Coq counterpart' % (where, t))
+    if t[0] == 'option':
+        return 'option ' + coq_type_atom(t[1], where)
+    if t[0] == 'tryres':
+        return 'option ' + coq_type_atom(t[1], where)
+    if t[0] == 'result':
+        return 'rres ' + coq_type_atom(t[1], where)
+    if t[0] == 'list':
+        return 'list ' + coq_type_atom(t[1], where)
+    if t[0] == 'tuple':
+        return '(' + ' * '.join(coq_type_atom(x, where) for x in t[1]) + ')'
+    if t[0] in ('record', 'enum'):
+        return t[1]
+    if t[0] == 'opaque':
+        raise Rs2vError('%s: unsupported type `%s` (drop the parameter, or declare it as record/enum, '
+                        'or give "param_types")' % (where, t[1]))
+    raise Rs2vError('%s: type %s has no Coq counterpart' % (where, show_type(t)))
+
+
+def coq_type_atom(t, where):
+    s = coq_type(t, where)
+    if ' ' in s and not s.startswith('('):
+        return '(' + s + ')'
+    return s
+
+
+class FnSig(object):
+    """Signature of a translated function as seen from call sites."""
+
+    def __init__(self):
+        self.coq = None
+        self.rust_params = []     # [(name, type, dropped)] in Rust order, without self
+        self.self_mode = None     # None | 'record' | 'fields'
+        self.self_type = None
+        self.self_fields = []     # [(name, type)]
+        self.extras = []          # [(name, type)]
+        self.ret = None
+        self.impl = None
+        self.name = None
+
+
+class Globals(object):
+    """Everything a translation unit can refer to by name."""
+
+    def __init__(self):
+        self.consts = {}    # name -> (coq, type)
+        self.fns = {}       # (impl or None, name) -> FnSig
+        self.records = {}   # name -> dict(fields=[(fname,type)], prefix=str, ctor=str)
+        self.enums = {}     # name -> dict(variants=[(vname, [(fname,type)] or None)])
+
+    def copy_from(self, other):
+        self.consts.update(other.consts)
+        self.fns.update(other.fns)
+        self.records.update(other.records)
+        self.enums.update(other.enums)
+
+    def is_global_name(self, n):
+        if n in self.consts:
+            return True
+        for (_i, name) in self.fns:
+            if name == n:
+                return True
+        return False
+
+
+def type_from_string(s, G, where, generics=None, self_type=None):
+    toks = tokenize(s, where)
+    p = Parser(toks, where, Cfg([], []))
+    ast = p.parse_type()
+    if p.peek().k != 'eof':
+        raise Rs2vError('%s: malformed type string %r' % (where, s))
+    return resolve_type(ast, G, where, generics or {}, self_type)
+
+
+_ITER_TRAITS = ('Iterator', 'IntoIterator', 'DoubleEndedIterator', 'ExactSizeIterator')
+
+
+def _iter_item(bounds, G, where, generics, self_type):
+    for b in bounds:
+        if b.k == 'tpath' and b.segs[-1] in _ITER_TRAITS:
+            for a in b.args:
+                if a.k == 'assoc' and a.name == 'Item':
+                    return resolve_type(a.ty, G, where, generics, self_type)
+    return None
+
+
+def resolve_type(ast, G, where, generics, self_type=None):
+    k = ast.k
+    if k == 'tuple':
+        if not ast.elems:
+            return 'unit'
+        return ('tuple', tuple(resolve_type(x, G, where, generics, self_type) for x in ast.elems))
+    if k == 'slice':
+        return ('list', resolve_type(ast.elem, G, where, generics, self_type))
+    if k == 'never':
+        return 'never'
+    if k == 'impl':
+        it = _iter_item(ast.bounds, G, where, generics, self_type)
+        if it is not None:
+            return ('list', it)
+        return ('opaque', 'impl ' + '+'.join(b.segs[-1] if b.k == 'tpath' else '?' for b in ast.bounds))
+    if k == 'opaque':
+        return ('opaque', ast.text)
+    if k == 'tpath':
+        name = ast.segs[-1]
+        args = [a for a in ast.args if a.k != 'assoc']
+        if len(ast.segs) == 1 or ast.segs[-2] in ('core', 'std', 'primitive'):
+            if name in INT:
+                return name
+            if name == 'bool':
+                return 'bool'
+            if name in ('str', 'String'):
+                return 'str'
+        if name == 'Option' and len(args) == 1:
+            return ('option', resolve_type(args[0], G, where, generics, self_type))
+        if name == 'Result' and len(args) >= 1:
+            return ('result', resolve_type(args[0], G, where, generics, self_type))
+        if name in ('Vec', 'VecDeque') and len(args) == 1:
+            return ('list', resolve_type(args[0], G, where, generics, self_type))
+        if name in ('Box', 'Arc', 'Rc') and len(args) == 1:
+            return resolve_type(args[0], G, where, generics, self_type)
+        if name == 'Self' and self_type is not None:
+            return self_type
+        if len(ast.segs) == 1 and name in generics:
+            it = _iter_item(generics[name], G, where, generics, self_type)
+            if it is not None:
+                return ('list', it)
+            return ('opaque', 'generic ' + name)
+        if name in G.records:
+            return ('record', name)
+        if name in G.enums:
+            return ('enum', name)
+        return ('opaque', '::'.join(ast.segs))
+    raise Rs2vError('%s: unsupported type syntax (%s)' % (where, k))
+
+
+# ---------------------------------------------------------------------------------------------
+# IR
+# ---------------------------------------------------------------------------------------------
+
+class I(object):
+    """IR node (Gallina-shaped term, plus Checked/Seq/Panic that only matter for `_safe`)."""
+
+    def __init__(self, k, **kw):
+        self.k = k
+        self.__dict__.update(kw)
+
+
+def Var(n):
+    return I('var', name=n)
+
+
+def Int(n):
+    return I('int', value=n)
+
+
+def Bool(b):
+    return I('bool', value=b)
+
+
+UNIT = I('unit')
+
+
+def App(f, args, safe=None):
+    return I('app', f=f, args=list(args), safe=safe)
+
+
+def Bin(op, a, b, ty, checked=True):
+    return I('bin', op=op, a=a, b=b, ty=ty, checked=checked)
+
+
+def Let(pat, e, body):
+    return I('let', pat=pat, e=e, body=body)
+
+
+def If(c, a, b):
+    return I('if', c=c, a=a, b=b)
+
+
+def Match(s, arms):
+    return I('match', s=s, arms=arms)
+
+
+def Tuple(es):
+    if len(es) == 1:
+        return es[0]
+    return I('tuple', es=list(es))
+
+
+def PVar(n):
+    return I('pvar', name=n)
+
+
+PWILD = I('pwild')
+
+
+def PTuple(ps):
+    if len(ps) == 1:
+        return ps[0]
+    return I('ptuple', ps=list(ps))
+
+
+def PCtor(c, ps=()):
+    return I('pctor', c=c, ps=list(ps))
+
+
+def Lam(pats, body):
+    return I('lam', pats=list(pats), body=body)
+
+
+COQ_RESERVED = set('''as at cofix else end exists exists2 fix for forall fun if IF in let match mod Prop return Set
+then Type using where with by Definition Lemma Theorem Proof Qed tt true false negb implb andb orb xorb fst snd
+Some None ROk RErr is_ok pow2 in_u cast_u sat_sub sat_add sat_mul chk_sub chk_add chk_mul wrap_add wrap_sub div_ceil
+opt_bind in_i cast_i unwrap_or unwrap_z is_some is_none ok_or res_ok is_err then_some try_into_u try_into_i chk_shr
+chk_shl chk_div abs_diff wrap_mul filter_map sum_z sum_safe sum_safe_from fold_safe option_map Z N nat list bool
+unit string option rres length map filter app rev pair prod'''.split())
+
+
+# ---------------------------------------------------------------------------------------------
+# 5. Lowering AST -> IR
+# ---------------------------------------------------------------------------------------------
+
+def ast_children(n):
+    for key, v in n.__dict__.items():
+        if key in ('k', 'line', 'ty', 'ret', 'targs', 'toks'):
+            continue
+        for x in _flat_nodes(v):
+            yield x
+
+
+def _flat_nodes(v):
+    if isinstance(v, A):
+        yield v
+    elif isinstance(v, (list, tuple)):
+        for y in v:
+            for z in _flat_nodes(y):
+                yield z
+
+
+def has_escape(n):
+    """Does evaluating n possibly leave n other than by producing its value (return / `?`)?"""
+    if n is None:
+        return False
+    c = getattr(n, '_esc', None)
+    if c is not None:
+        return c
+    if n.k in ('return', 'try'):
+        r = True
+    elif n.k == 'closure':
+        r = False
+    else:
+        r = any(has_escape(x) for x in ast_children(n))
+    n._esc = r
+    return r
+
+
+def pattern_names(p, out=None):
+    out = [] if out is None else out
+    if p.k == 'pbind':
+        out.append(p.name)
+    elif p.k in ('ptuple', 'ptstruct'):
+        for x in p.elems:
+            pattern_names(x, out)
+    elif p.k == 'pstruct':
+        for _n, x in p.fields:
+            pattern_names(x, out)
+    elif p.k == 'por':
+        pattern_names(p.alts[0], out)
+    return out
+
+
+def assigned_vars(n, declared=frozenset(), out=None, fm=None):
+    """Names assigned (`=`, `+=`, ...) inside n that are not declared by a `let` inside n."""
+    out = [] if out is None else out
+    if n is None:
+        return out
+    if n.k == 'block':
+        decl = set(declared)
+        for s in n.stmts:
+            if s.k == 'let':
+                if s.init is not None:
+                    assigned_vars(s.init, frozenset(decl), out, fm)
+                if s.els is not None:
+                    assigned_vars(s.els, frozenset(decl), out, fm)
+                decl.update(pattern_names(s.pat))
+            else:
+                assigned_vars(s.e, frozenset(decl), out, fm)
+        if n.tail is not None:
+            assigned_vars(n.tail, frozenset(decl), out, fm)
+        return out
+    if n.k == 'assign':
+        tgt = n.l
+        while tgt.k in ('paren',) or (tgt.k == 'unary' and tgt.op == '*'):
+            tgt = tgt.e
+        if tgt.k == 'path' and len(tgt.segs) == 1:
+            if tgt.segs[0] not in declared and tgt.segs[0] not in out:
+                out.append(tgt.segs[0])
+        assigned_vars(n.r, declared, out, fm)
+        return out
+    if n.k == 'closure':
+        return out
+    if n.k == 'call' and fm and n.f.k == 'path' and len(n.f.segs) == 1 and n.f.segs[0] in fm \
+            and n.f.segs[0] not in declared:
+        for c in fm[n.f.segs[0]]:
+            if c not in declared and c not in out:
+                out.append(c)
+    if n.k in ('iflet',):
+        assigned_vars(n.scrut, declared, out, fm)
+        d2 = frozenset(set(declared) | set(pattern_names(n.pat)))
+        assigned_vars(n.then, d2, out, fm)
+        assigned_vars(n.els, declared, out, fm)
+        return out
+    if n.k == 'match':
+        assigned_vars(n.scrut, declared, out, fm)
+        for pat, guard, body in n.arms:
+            d2 = frozenset(set(declared) | set(pattern_names(pat)))
+            assigned_vars(guard, d2, out, fm)
+            assigned_vars(body, d2, out, fm)
+        return out
+    if n.k == 'for':
+        assigned_vars(n.iter, declared, out, fm)
+        d2 = frozenset(set(declared) | set(pattern_names(n.pat)))
+        assigned_vars(n.body, d2, out, fm)
+        return out
+    for x in ast_children(n):
+        assigned_vars(x, declared, out, fm)
+    return out
+
+
+LOG_MACROS = {'log_trace', 'log_debug', 'log_info', 'log_warn', 'log_error', 'log_gossip'}
+ASSERT_MACROS = {'debug_assert', 'assert', 'debug_assert_eq', 'assert_eq', 'debug_assert_ne', 'assert_ne'}
+PANIC_MACROS = {'unreachable', 'panic'}
+
+
+class Ctx(object):
+    def __init__(self, ret, kind):
+        self.ret = ret          # declared/inferred return type
+        self.kind = kind        # 'fn' | 'closure' | 'loop'
+        self.on_return = None
+        self.try_fail = None
+
+
+class Lower(object):
+    def __init__(self, G, cfg, where, idents, item_cfg=None, impl=None):
+        self.G = G
+        self.cfg = cfg
+        self.where = where
+        self.idents = set(idents)
+        self.item_cfg = item_cfg or {}
+        self.impl = impl
+        self.counter = {}
+        self.ctx = None
+        self.self_mode = None
+        self.self_fields = {}
+        self.fnmut_caps = {}
+        self.fnmut_rust = {}
+
+    # -- utilities
+    def err(self, node, msg):
+        line = getattr(node, 'line', 0) if node is not None else 0
+        raise Rs2vError('%s:%s: %s' % (self.where, line, msg))
+
+    def wh(self, node):
+        return '%s:%s' % (self.where, getattr(node, 'line', 0))
+
+    def av(self, n, declared=frozenset()):
+        return assigned_vars(n, declared, None, self.fnmut_rust)
+
+    def fresh(self, base):
+        while True:
+            n = self.counter.get(base, 0) + 1
+            self.counter[base] = n
+            name = '%s_%d' % (base, n)
+            if name not in self.idents:
+                self.idents.add(name)
+                return name
+
+    def coq_name(self, name):
+        if name in COQ_RESERVED or name.endswith('_safe'):
+            return name + '_'
+        return name
+
+    def bind(self, env, name, ty, guard=None):
+        """Bind Rust variable `name`.  guard = names whose outer bindings must not be captured
+        (set when the continuation of an inner block is inlined after it)."""
+        coq = self.coq_name(name)
+        if name == '_':
+            return env, '_'
+        if guard is not None and (name in guard or self.G.is_global_name(name)):
+            coq = self.fresh(name)
+        env = dict(env)
+        env[name] = (coq, ty)
+        return env, coq
+
+    # -- patterns
+    def bind_pattern(self, p, ty, env, guard=None):
+        k = p.k
+        if k == 'pwild':
+            return PWILD, env
+        if k == 'pbind':
+            env, coq = self.bind(env, p.name, ty, guard)
+            return (PWILD if coq == '_' else PVar(coq)), env
+        if k == 'ptuple':
+            tys = [TV() for _ in p.elems]
+            unify(ty, ('tuple', tuple(tys)), self.wh(p))
+            pats = []
+            for sub, t in zip(p.elems, tys):
+                pi, env = self.bind_pattern(sub, t, env, guard)
+                pats.append(pi)
+            return I('ptuple', ps=pats), env
+        if k == 'pbool':
+            unify(ty, 'bool', self.wh(p))
+            return I('pbool', value=p.value), env
+        if k == 'pint':
+            unify(ty, TV('int'), self.wh(p))
+            return I('pint', value=p.value), env
+        if k == 'ptstruct':
+            name = p.segs[-1]
+            if name == 'Some' and len(p.elems) == 1:
+                inner = TV()
+                unify(ty, ('option', inner), self.wh(p))
+                pi, env = self.bind_pattern(p.elems[0], inner, env, guard)
+                return PCtor('Some', [pi]), env
+            if name == 'Ok' and len(p.elems) == 1:
+                inner = TV()
+                unify(ty, ('result', inner), self.wh(p))
+                pi, env = self.bind_pattern(p.elems[0], inner, env, guard)
+                return PCtor('ROk', [pi]), env
+            if name == 'Err' and len(p.elems) == 1:
+                unify(ty, ('result', TV()), self.wh(p))
+                sub = p.elems[0]
+                if sub.k == 'pbind':
+                    env, coq = self.bind(env, sub.name, 'str', guard)
+                    return PCtor('RErr', [PVar(coq)]), env
+                if sub.k == 'pwild' or (sub.k == 'ptuple' and not sub.elems):
+                    return PCtor('RErr', [PWILD]), env
+                if sub.k == 'ppath':
+                    self.err(p, 'matching on a specific error variant `Err(%s)` is not supported (errors are '
+                                'strings; compare explicitly)' % '::'.join(sub.segs))
+                self.err(p, 'unsupported pattern inside Err(..)')
+            self.err(p, 'unsupported tuple-struct pattern `%s(..)`' % '::'.join(p.segs))
+        if k == 'ppath':
+            name = p.segs[-1]
+            if name == 'None' and len(p.segs) == 1:
+                unify(ty, ('option', TV()), self.wh(p))
+                return PCtor('None'), env
+            if len(p.segs) >= 2 and p.segs[-2] in self.G.enums:
+                en = p.segs[-2]
+                variants = dict(self.G.enums[en]['variants'])
+                if name not in variants:
+                    self.err(p, 'enum %s has no declared variant %s' % (en, name))
+                if variants[name]:
+                    self.err(p, 'variant %s::%s carries fields; use a struct pattern' % (en, name))
+                unify(ty, ('enum', en), self.wh(p))
+                return PCtor('%s_%s' % (en, name)), env
+            self.err(p, 'unsupported path pattern `%s` (enum not declared in config "enums")' % '::'.join(p.segs))
+        if k == 'pstruct':
+            name = p.segs[-1]
+            if len(p.segs) >= 2 and p.segs[-2] in self.G.enums:
+                en = p.segs[-2]
+                variants = dict(self.G.enums[en]['variants'])
+                if name not in variants or not variants[name]:
+                    self.err(p, 'enum %s has no declared struct-like variant %s' % (en, name))
+                unify(ty, ('enum', en), self.wh(p))
+                decl = variants[name]
+                ctor = '%s_%s' % (en, name)
+            elif name in self.G.records:
+                unify(ty, ('record', name), self.wh(p))
+                decl = self.G.records[name]['fields']
+                ctor = self.G.records[name]['ctor']
+            else:
+                self.err(p, 'unsupported struct pattern `%s {..}` (type not declared in config)' % '::'.join(p.segs))
+            given = dict(p.fields)
+            for fname in given:
+                if fname not in dict(decl):
+                    self.err(p, 'pattern field `%s` is not a declared field of %s' % (fname, name))
+            pats = []
+            for fname, fty in decl:
+                if fname in given:
+                    pi, env = self.bind_pattern(given[fname], fty, env, guard)
+                    pats.append(pi)
+                elif p.rest:
+                    pats.append(PWILD)
+                else:
+                    self.err(p, 'pattern for %s lacks field `%s` and has no `..`' % (name, fname))
+            return PCtor(ctor, pats), env
+        if k == 'por':
+            names0 = sorted(pattern_names(p.alts[0]))
+            alts = []
+            env_out = env
+            for idx, alt in enumerate(p.alts):
+                if sorted(pattern_names(alt)) != names0:
+                    self.err(p, 'alternatives of an or-pattern bind different names')
+                pi, e2 = self.bind_pattern(alt, ty, env, guard if idx == 0 else None)
+                if idx == 0:
+                    env_out = e2
+                else:
+                    for nm in names0:
+                        unify(e2[nm][1], env_out[nm][1], self.wh(p))
+                        if e2[nm][0] != env_out[nm][0]:
+                            self.err(p, 'or-pattern binder renaming conflict')
+                alts.append(pi)
+            return I('por', ps=alts), env_out
+        self.err(p, 'unsupported pattern kind %s' % k)
+
+    # -- pure (non-escaping) lowering helpers
+    def pure(self, e, env):
+        if has_escape(e):
+            self.err(e, '`return`/`?` in a position where control flow cannot be translated '
+                        '(operand of &&/||, closure passed to a method, guard, ...)')
+        box = []
+
+        def k(v, t):
+            box.append(t)
+            return v
+        ir = self.lower(e, env, k)
+        if len(box) != 1:
+            self.err(e, 'internal: pure lowering saw %d continuations' % len(box))
+        return ir, box[0]
+
+    def lower_scoped(self, node, env, k, guard):
+        if node.k == 'block':
+            return self.lower_block(node, env, k, guard)
+        return self.lower(node, env, k)
+
+    # -- dispatcher
+    def lower(self, e, env, k):
+        m = getattr(self, 'lo_' + e.k, None)
+        if m is None:
+            self.err(e, 'unsupported expression kind `%s`' % e.k)
+        return m(e, env, k)
+
+    # -- simple expressions
+    def lo_int(self, e, env, k):
+        ty = e.suf if e.suf else TV('int')
+        return k(Int(e.value), ty)
+
+    def lo_bool(self, e, env, k):
+        return k(Bool(e.value), 'bool')
+
+    def lo_unit(self, e, env, k):
+        return k(UNIT, 'unit')
+
+    def lo_str(self, e, env, k):
+        self.err(e, 'string literals are only supported inside dropped macros')
+
+    def lo_paren(self, e, env, k):
+        return self.lower(e.e, env, k)
+
+    def lo_index(self, e, env, k):
+        self.err(e, 'indexing (`a[i]`) is not supported')
+
+    def lo_closure(self, e, env, k):
+        self.err(e, 'closures are only supported when bound by `let` or passed to map/filter/and_then/...')
+
+    def lo_path(self, e, env, k):
+        segs = e.segs
+        name = segs[-1]
+        if len(segs) == 1:
+            if name in env:
+                coq, ty = env[name]
+                return k(Var(coq), ty)
+            if name == 'self':
+                self.err(e, 'bare `self` is only supported when the config gives "self_record"')
+            if name == 'None':
+                return k(I('none'), ('option', TV()))
+        if len(segs) >= 2 and segs[-2] in INT:
+            w, signed = INT[segs[-2]]
+            t = segs[-2]
+            two = lambda n: Bin('^', Int(2), Int(n), t, checked=False)
+            if name == 'MAX':
+                return k(Bin('-', two(w - 1 if signed else w), Int(1), t, checked=False), t)
+            if name == 'MIN':
+                if signed:
+                    return k(I('neg', a=two(w - 1)), t)
+                return k(Int(0), t)
+            if name == 'BITS':
+                return k(Int(w), 'u32')
+        if len(segs) >= 2 and segs[-2] in self.G.enums:
+            en = segs[-2]
+            variants = dict(self.G.enums[en]['variants'])
+            if name not in variants:
+                self.err(e, 'enum %s has no declared variant %s' % (en, name))
+            if variants[name]:
+                self.err(e, 'variant %s::%s carries fields' % (en, name))
+            return k(Var('%s_%s' % (en, name)), ('enum', en))
+        if name in self.G.consts:
+            coq, ty = self.G.consts[name]
+            return k(Var(coq), ty)
+        self.err(e, 'unknown identifier `%s` (not a local, parameter, listed constant or declared enum variant)'
+                 % '::'.join(segs))
+
+    def lower_list(self, es, env, k):
+        """Lower a list of expressions left to right; k receives ([ir], [type])."""
+        def go(i, irs, tys):
+            if i == len(es):
+                return k(irs, tys)
+            return self.lower(es[i], env, lambda v, t: go(i + 1, irs + [v], tys + [t]))
+        return go(0, [], [])
+
+    def lo_tuple(self, e, env, k):
+        return self.lower_list(e.elems, env, lambda irs, tys: k(I('tuple', es=irs), ('tuple', tuple(tys))))
+
+    def lo_unary(self, e, env, k):
+        if e.op in ('&', '*'):
+            return self.lower(e.e, env, k)
+        if e.op == '!':
+            def k2(v, t):
+                tt = prune(t)
+                if is_int(tt) or (isinstance(tt, TV) and tt.kind == 'int'):
+                    self.err(e, 'bitwise `!` on integers is not supported')
+                unify(t, 'bool', self.wh(e))
+                return k(I('not', a=v), 'bool')
+            return self.lower(e.e, env, k2)
+        if e.op == '-':
+            def k3(v, t):
+                tt = prune(t)
+                if v.k == 'int':
+                    return k(Int(-v.value), t)
+                if is_int(tt) and INT[tt][1]:
+                    return k(I('neg', a=v, ty=t), t)
+                self.err(e, 'unary minus on a non-literal / unsigned value is not supported')
+            return self.lower(e.e, env, k3)
+        self.err(e, 'unsupported unary operator %s' % e.op)
+
+    def lo_binary(self, e, env, k):
+        op = e.op
+        if op in ('&&', '||'):
+            def k2(a, ta):
+                unify(ta, 'bool', self.wh(e))
+                b, tb = self.pure(e.r, env)
+                unify(tb, 'bool', self.wh(e))
+                return k(Bin(op, a, b, 'bool'), 'bool')
+            return self.lower(e.l, env, k2)
+
+        def kl(a, ta):
+            def kr(b, tb):
+                if op in ('<<', '>>'):
+                    return k(Bin(op, a, b, ta), ta)
+                unify(ta, tb, self.wh(e))
+                if op in ('==', '!=', '<', '<=', '>', '>='):
+                    return k(Bin(op, a, b, ta), 'bool')
+                return k(Bin(op, a, b, ta), ta)
+            return self.lower(e.r, env, kr)
+        return self.lower(e.l, env, kl)
+
+    def lo_cast(self, e, env, k):
+        dst = resolve_type(e.ty, self.G, self.wh(e), {}, None)
+        if not is_int(dst):
+            self.err(e, '`as %s`: only casts to integer types are supported' % show_type(dst))
+
+        def k2(v, t):
+            return k(I('cast', a=v, src=t, dst=dst, line=e.line), dst)
+        return self.lower(e.e, env, k2)
+
+    def assign_target(self, e, env):
+        tgt = e.l
+        while tgt.k == 'paren' or (tgt.k == 'unary' and tgt.op == '*'):
+            tgt = tgt.e
+        if tgt.k != 'path' or len(tgt.segs) != 1 or tgt.segs[0] not in env:
+            self.err(e, 'assignment target must be a local variable (fields / out-parameters are not supported)')
+        return tgt.segs[0]
+
+    def lo_assign(self, e, env, k):
+        name = self.assign_target(e, env)
+        coq, ty = env[name]
+
+        def k2(v, t):
+            if e.op == '=':
+                unify(ty, t, self.wh(e))
+                val = v
+            else:
+                bop = e.op[:-1]
+                if bop not in ('<<', '>>'):
+                    unify(ty, t, self.wh(e))
+                val = Bin(bop, Var(coq), v, ty)
+            return Let(PVar(coq), val, k(UNIT, 'unit'))
+        return self.lower(e.r, env, k2)
+
+    def lo_field(self, e, env, k):
+        base = e.e
+        if base.k == 'path' and base.segs == ['self'] and self.self_mode == 'fields':
+            if e.name not in self.self_fields:
+                self.err(e, '`self.%s` is not listed in the config "self_fields"' % e.name)
+            coq, ty = self.self_fields[e.name]
+            return k(Var(coq), ty)
+
+        def k2(v, t):
+            tt = prune(t)
+            if isinstance(tt, tuple) and tt[0] == 'record':
+                rec = self.G.records[tt[1]]
+                for fname, fty in rec['fields']:
+                    if fname == e.name:
+                        return k(App(rec['prefix'] + fname, [v]), fty)
+                self.err(e, 'record %s has no declared field `%s`' % (tt[1], e.name))
+            if isinstance(tt, tuple) and tt[0] == 'tuple' and e.name.isdigit():
+                idx = int(e.name)
+                n = len(tt[1])
+                if idx >= n:
+                    self.err(e, 'tuple index out of range')
+                # (a, b, c) = ((a, b), c)
+                cur = v
+                for _ in range(n - 1 - idx):
+                    cur = App('fst', [cur])
+                if idx > 0:
+                    cur = App('snd', [cur])
+                return k(cur, tt[1][idx])
+            self.err(e, 'field access `.%s` on a value of unsupported/unknown type %s' % (e.name, show_type(tt)))
+        return self.lower(base, env, k2)
+
+    def lo_struct(self, e, env, k):
+        name = e.segs[-1]
+        if name not in self.G.records:
+            self.err(e, 'struct literal of `%s`, which is not declared in config "records"' % name)
+        rec = self.G.records[name]
+        decl = rec['fields']
+        given = [n for n, _ in e.fields]
+        if sorted(given) != sorted(n for n, _ in decl):
+            self.err(e, 'struct literal %s {..}: fields %s differ from the declared record fields %s'
+                     % (name, given, [n for n, _ in decl]))
+
+        def k2(irs, tys):
+            byname = {}
+            for (fname, _), v, t in zip(e.fields, irs, tys):
+                unify(t, dict(decl)[fname], self.wh(e))
+                byname[fname] = v
+            return k(App(rec['ctor'], [byname[n] for n, _ in decl]), ('record', name))
+        return self.lower_list([v for _, v in e.fields], env, k2)
+
+    def lo_return(self, e, env, k):
+        if e.e is None:
+            return self.ctx.on_return(UNIT, 'unit', e)
+        return self.lower(e.e, env, lambda v, t: self.ctx.on_return(v, t, e))
+
+    def lo_try(self, e, env, k):
+        def k2(v, t):
+            tt = prune(t)
+            if isinstance(tt, TV):
+                self.err(e, 'cannot infer the type of the operand of `?`')
+            if tt[0] in ('option',):
+                x = self.fresh('v')
+                body = k(Var(x), tt[1])
+                pat = PVar(x)
+                if body.k == 'let' and body.e.k == 'var' and body.e.name == x:
+                    pat = body.pat
+                    body = body.body
+                return Match(v, [(PCtor('Some', [pat]), body), (PCtor('None'), self.ctx.try_fail('option', None, e))])
+            if tt[0] == 'result':
+                x = self.fresh('v')
+                er = self.fresh('err')
+                body = k(Var(x), tt[1])
+                pat = PVar(x)
+                if body.k == 'let' and body.e.k == 'var' and body.e.name == x:
+                    pat = body.pat
+                    body = body.body
+                return Match(v, [(PCtor('ROk', [pat]), body),
+                                 (PCtor('RErr', [PVar(er)]), self.ctx.try_fail('result', Var(er), e))])
+            self.err(e, '`?` on a value of type %s is not supported' % show_type(tt))
+        return self.lower(e.e, env, k2)
+
+    # -- macros
+    def macro_args(self, e):
+        """Split macro tokens at top-level commas and parse each piece as an expression (lazily)."""
+        parts = [[]]
+        depth = 0
+        for t in e.toks:
+            if t.k == 'p':
+                if t.s in _OPEN:
+                    depth += 1
+                elif t.s in _CLOSE:
+                    depth -= 1
+                elif t.s == ',' and depth == 0:
+                    parts.append([])
+                    continue
+            parts[-1].append(t)
+        if parts and not parts[-1]:
+            parts.pop()
+        return parts
+
+    def parse_tokens_expr(self, toks, e):
+        if not toks:
+            self.err(e, 'empty macro argument')
+        eof = Tok('eof', '<eof>', toks[-1].end, toks[-1].end, toks[-1].line)
+        return Parser(list(toks) + [eof], self.where, self.cfg).parse_whole_expr()
+
+    def lo_macro(self, e, env, k):
+        name = e.name
+        if name in LOG_MACROS:
+            return k(UNIT, 'unit')
+        if name in PANIC_MACROS:
+            tv = TV()
+            return k(I('panic', ty=tv), tv)
+        if name in ASSERT_MACROS:
+            parts = self.macro_args(e)
+            if name in ('debug_assert', 'assert'):
+                if len(parts) < 1:
+                    self.err(e, '%s! without condition' % name)
+                c, tc = self.pure(self.parse_tokens_expr(parts[0], e), env)
+                unify(tc, 'bool', self.wh(e))
+            else:
+                if len(parts) < 2:
+                    self.err(e, '%s! needs two arguments' % name)
+                a, ta = self.pure(self.parse_tokens_expr(parts[0], e), env)
+                b, tb = self.pure(self.parse_tokens_expr(parts[1], e), env)
+                unify(ta, tb, self.wh(e))
+                c = Bin('!=' if name.endswith('_ne') else '==', a, b, ta)
+            return k(I('checked', c=c, body=UNIT), 'unit')
+        if name == 'matches':
+            parts = self.macro_args(e)
+            if len(parts) != 2:
+                self.err(e, 'matches! with a guard is not supported')
+            s, ts = self.pure(self.parse_tokens_expr(parts[0], e), env)
+            eof = Tok('eof', '<eof>', 0, 0, e.line)
+            pat = Parser(list(parts[1]) + [eof], self.where, self.cfg).parse_pattern()
+            pi, _env = self.bind_pattern(pat, ts, env)
+            return k(Match(s, [(pi, Bool(True)), (PWILD, Bool(False))]), 'bool')
+        self.err(e, 'unsupported macro `%s!`' % name)
+
+    # -- blocks and statements
+    def lo_block(self, e, env, k):
+        if not has_escape(e):
+            outer = self.av(e)
+            outer = [n for n in outer if n in env]
+            if not outer:
+                v, t = self.pure_block(e, env)
+                return k(v, t)
+        return self.lower_block(e, env, k, guard=set(env.keys()))
+
+    def pure_block(self, b, env):
+        box = []
+
+        def k(v, t):
+            box.append(t)
+            return v
+        ir = self.lower_block(b, env, k, None)
+        if len(box) != 1:
+            self.err(b, 'internal: pure block saw %d continuations' % len(box))
+        return ir, box[0]
+
+    def lower_block(self, b, env, k, guard):
+        return self.lower_stmts(b.stmts, 0, b.tail, env, k, guard)
+
+    def lower_stmts(self, stmts, i, tail, env, k, guard):
+        if i == len(stmts):
+            if tail is None:
+                return k(UNIT, 'unit')
+            return self.lower(tail, env, k)
+        s = stmts[i]
+
+        def rest(env2):
+            return self.lower_stmts(stmts, i + 1, tail, env2, k, guard)
+
+        if s.k == 'let':
+            if s.init is None:
+                # `let x;` / `let x: T;` -- declared, assigned later
+                names = pattern_names(s.pat)
+                if s.pat.k != 'pbind':
+                    self.err(s, '`let` without initializer must bind a single variable')
+                ty = resolve_type(s.ty, self.G, self.wh(s), {}, None) if s.ty is not None else TV()
+                env2, _coq = self.bind(env, names[0], ty, guard)
+                return rest(env2)
+            if s.init.k == 'closure':
+                if s.pat.k != 'pbind':
+                    self.err(s, 'closure must be bound to a simple name')
+                return self.lower_letfun(s, env, rest, guard)
+
+            def k2(v, t):
+                if s.ty is not None:
+                    unify(t, resolve_type(s.ty, self.G, self.wh(s), {}, None), self.wh(s))
+                if s.els is not None:
+                    pi, env2 = self.bind_pattern(s.pat, t, env, guard)
+                    if not has_escape(s.els):
+                        self.err(s, '`let ... else` block must diverge with `return`')
+                    els = self.lower_block(s.els, env, lambda v_, t_: self.err(s, 'let-else block does not diverge'),
+                                           guard)
+                    return Match(v, [(pi, rest(env2)), (PWILD, els)])
+                pi, env2 = self.bind_pattern(s.pat, t, env, guard)
+                return Let(pi, v, rest(env2))
+            return self.lower(s.init, env, k2)
+        # expression statement
+        e = s.e
+
+        def k3(v, t):
+            r = rest(env)
+            if v.k == 'unit':
+                return r
+            return I('seq', s=v, rest=r)
+        return self.lower(e, env, k3)
+
+    # -- closures bound by let
+    def lower_lambda(self, c, ptypes, env, what):
+        """Closure passed to a combinator.  Returns (pats, body_ir, body_type)."""
+        if c.k != 'closure':
+            self.err(c, '%s expects a closure literal' % what)
+        if len(c.params) != len(ptypes):
+            self.err(c, '%s: closure takes %d parameters, expected %d' % (what, len(c.params), len(ptypes)))
+        if has_escape(c.body):
+            self.err(c, '`return`/`?` inside a closure passed to %s is not supported' % what)
+        captured = [n for n in self.av(c.body) if n in env and n not in
+                    [x for p, _ in c.params for x in pattern_names(p)]]
+        if captured:
+            self.err(c, 'closure assigns to captured variable(s) %s (FnMut closures are not supported)' % captured)
+        env2 = env
+        pats = []
+        for (pat, ty), pt in zip(c.params, ptypes):
+            if ty is not None:
+                unify(pt, resolve_type(ty, self.G, self.wh(c), {}, None), self.wh(c))
+            pi, env2 = self.bind_pattern(pat, pt, env2)
+            pats.append(pi)
+        saved = self.ctx
+        self.ctx = self.closure_ctx(TV(), c)
+        try:
+            body, bt = self.pure(c.body, env2)
+        finally:
+            self.ctx = saved
+        if c.ret is not None:
+            unify(bt, resolve_type(c.ret, self.G, self.wh(c), {}, None), self.wh(c))
+        return pats, body, bt
+
+    def closure_ctx(self, ret, node):
+        ctx = Ctx(ret, 'closure')
+
+        def on_return(v, t, n):
+            unify(t, ctx.ret, self.wh(n))
+            return v
+
+        def try_fail(kind, ev, n):
+            rt = prune(ctx.ret)
+            if kind == 'option':
+                unify(ctx.ret, ('option', TV()), self.wh(n))
+                return I('none')
+            unify(ctx.ret, ('result', TV()), self.wh(n))
+            return I('err', e=ev)
+        ctx.on_return = on_return
+        ctx.try_fail = try_fail
+        return ctx
+
+    def lower_letfun(self, s, env, rest, guard):
+        c = s.init
+        name = s.pat.name
+        pnames = [x for p, _ in c.params for x in pattern_names(p)]
+        captured = [n for n in self.av(c.body) if n in env and n not in pnames]
+        if captured and not self.item_cfg.get('allow_fnmut'):
+            self.err(c, 'closure `%s` assigns to captured variable(s) %s (FnMut closure); set "allow_fnmut": true on '
+                        'the item to translate it in state-passing style' % (name, captured))
+        if captured and has_escape(c.body):
+            self.err(c, 'FnMut closure `%s` containing `return`/`?` is not supported' % name)
+        ptypes = []
+        env2 = env
+        pats = [PVar(env[n][0]) for n in captured]
+        for pat, ty in c.params:
+            pt = resolve_type(ty, self.G, self.wh(c), {}, None) if ty is not None else TV()
+            ptypes.append(pt)
+            pi, env2 = self.bind_pattern(pat, pt, env2)
+            pats.append(pi)
+        ret = resolve_type(c.ret, self.G, self.wh(c), {}, None) if c.ret is not None else TV()
+        saved = self.ctx
+        self.ctx = self.closure_ctx(ret, c)
+        try:
+            if captured:
+                unify(ret, 'unit', self.wh(c))
+
+                def kfm(v, t):
+                    unify(t, 'unit', self.wh(c))
+                    st = Tuple([Var(env2[n][0]) for n in captured])
+                    return st if v.k == 'unit' else I('seq', s=v, rest=st)
+                body = self.lower_scoped(c.body, env2, kfm, set(env2.keys()))
+            else:
+                body = self.lower_scoped(c.body, env2, lambda v, t: self.ctx.on_return(v, t, c), None)
+        finally:
+            self.ctx = saved
+        env3, coq = self.bind(env, name, ('fn', tuple(ptypes), ret), guard)
+        if captured:
+            self.fnmut_caps[coq] = list(captured)
+            self.fnmut_rust[name] = list(captured)
+        return I('letfun', name=coq, pats=pats, body=body, rest=rest(env3))
+
+    # -- branching constructs
+    def branching(self, e, env, k, branches, build):
+        """branches: [(env_i, node_i or None)]; build([ir_i]) -> IR.  Implements the three regimes:
+        pure value, tuple of assigned variables, or continuation duplication when a branch escapes."""
+        esc = any(has_escape(b) for _, b in branches)
+        assigned = []
+        for _, b in branches:
+            for n in self.av(b):
+                if n in env and n not in assigned:
+                    assigned.append(n)
+        if not esc and not assigned:
+            shared = TV()
+            irs = []
+            for env_b, b in branches:
+                if b is None:
+                    unify(shared, 'unit', self.wh(e))
+                    irs.append(UNIT)
+                    continue
+                if b.k == 'block':
+                    v, t = self.pure_block(b, env_b)
+                else:
+                    v, t = self.pure(b, env_b)
+                unify(shared, t, self.wh(b))
+                irs.append(v)
+            return k(build(irs), shared)
+        if not esc:
+            state = Tuple([Var(env[n][0]) for n in assigned])
+            spat = PTuple([PVar(env[n][0]) for n in assigned])
+            irs = []
+            for env_b, b in branches:
+                if b is None:
+                    irs.append(state)
+                    continue
+
+                def kb(v, t, b=b, env_b=env_b):
+                    tt = prune(t)
+                    if not (tt == 'unit' or isinstance(tt, TV)):
+                        self.err(b, 'a branch both yields a value and assigns outer variables %s' % assigned)
+                    st = Tuple([Var(env_b[n][0]) for n in assigned])
+                    if v.k != 'unit':
+                        return I('seq', s=v, rest=st)
+                    return st
+                irs.append(self.lower_scoped(b, env_b, kb, set(env_b.keys())))
+            return Let(spat, build(irs), k(UNIT, 'unit'))
+        shared = TV()
+
+        def kw(v, t):
+            unify(shared, t, self.wh(e))
+            return k(v, shared)
+        irs = []
+        for env_b, b in branches:
+            if b is None:
+                irs.append(kw(UNIT, 'unit'))
+            else:
+                irs.append(self.lower_scoped(b, env_b, kw, set(env_b.keys())))
+        return build(irs)
+
+    def lo_if(self, e, env, k):
+        def kc(c, tc):
+            unify(tc, 'bool', self.wh(e))
+            return self.branching(e, env, k, [(env, e.then), (env, e.els)], lambda irs: If(c, irs[0], irs[1]))
+        return self.lower(e.cond, env, kc)
+
+    def lo_iflet(self, e, env, k):
+        def ks(s, ts):
+            # when a branch escapes, the continuation is inlined into the arms: pattern binders must
+            # not capture outer variables of the same name there
+            guard = set(env.keys()) if (has_escape(e.then) or has_escape(e.els)) else None
+            pi, env_then = self.bind_pattern(e.pat, ts, env, guard)
+            return self.branching(e, env, k, [(env_then, e.then), (env, e.els)],
+                                  lambda irs: Match(s, [(pi, irs[0]), (PWILD, irs[1])]))
+        return self.lower(e.scrut, env, ks)
+
+    def lo_match(self, e, env, k):
+        def ks(s, ts):
+            arms = []
+            any_guard = False
+            pguard = set(env.keys()) if any(has_escape(b) for _p, _g, b in e.arms) else None
+            for pat, guard, body in e.arms:
+                pi, env_a = self.bind_pattern(pat, ts, env, pguard)
+                g = None
+                if guard is not None:
+                    any_guard = True
+                    g, tg = self.pure(guard, env_a)
+                    unify(tg, 'bool', self.wh(guard))
+                arms.append((pi, g, env_a, body))
+            if any_guard and s.k != 'var':
+                m = self.fresh('m')
+                s_use = Var(m)
+                wrap = lambda ir: Let(PVar(m), s, ir)
+            else:
+                s_use = s
+                wrap = lambda ir: ir
+
+            def build(irs):
+                if not any_guard:
+                    return Match(s_use, [(a[0], ir) for a, ir in zip(arms, irs)])
+
+                def chain(i):
+                    # maximal run of unguarded arms, then (optionally) one guarded arm whose failure
+                    # falls through to the translation of the remaining arms
+                    run = []
+                    j = i
+                    while j < len(arms) and arms[j][1] is None:
+                        run.append((arms[j][0], irs[j]))
+                        j += 1
+                    if j == len(arms):
+                        if not run:
+                            self.err(e, 'last match arm has a guard (non-exhaustive match)')
+                        if len(run) == 1 and run[0][0].k == 'pwild':
+                            return run[0][1]
+                        return Match(s_use, run)
+                    pi, g, _env, _b = arms[j]
+                    if j + 1 >= len(arms):
+                        self.err(e, 'last match arm has a guard (non-exhaustive match)')
+                    nxt = chain(j + 1)
+                    run.append((pi, If(g, irs[j], nxt)))
+                    if pi.k not in ('pwild', 'pvar'):
+                        run.append((PWILD, nxt))
+                    return Match(s_use, run)
+                return chain(0)
+            res = self.branching(e, env, k, [(a[2], a[3]) for a in arms], build)
+            return wrap(res)
+        return self.lower(e.scrut, env, ks)
+
+    # -- for loops with accumulators
+    def lo_for(self, e, env, k):
+        state = [n for n in self.av(e.body, frozenset(pattern_names(e.pat))) if n in env]
+        esc = has_escape(e.body)
+        if not state:
+            self.err(e, '`for` loop that assigns no outer variable (no accumulator) is not supported')
+
+        def kl(l, tl):
+            tt = prune(tl)
+            if not (isinstance(tt, tuple) and tt[0] == 'list'):
+                self.err(e, '`for` over a non-list value of type %s' % show_type(tt))
+            spat = PTuple([PVar(env[n][0]) for n in state])
+            init = Tuple([Var(env[n][0]) for n in state])
+            xpat, env_b = self.bind_pattern(e.pat, tt[1], env)
+            if not esc:
+                def kb(v, t):
+                    st = Tuple([Var(env_b[n][0]) for n in state])
+                    return st if v.k == 'unit' else I('seq', s=v, rest=st)
+                body = self.lower_block(e.body, env_b, kb, set(env_b.keys()))
+                fold = I('lfold', spat=spat, xpat=xpat, body=body, l=l, init=init)
+                return Let(spat, fold, k(UNIT, 'unit'))
+            # early exit through `?` / `return None|Err(..)`: the fold state is option/rres of the state
+            rt = prune(self.ctx.ret)
+            if not (isinstance(rt, tuple) and rt[0] in ('option', 'result')):
+                self.err(e, '`return`/`?` inside a `for` loop needs an Option/Result-returning function')
+            mode = rt[0]
+            saved = self.ctx
+            lctx = Ctx(saved.ret, 'loop')
+
+            def on_return(v, t, n):
+                unify(t, saved.ret, self.wh(n))
+                if v.k in ('none', 'err'):
+                    return v
+                self.err(n, '`return` of a non-failure value inside a `for` loop is not supported')
+
+            def try_fail(kind, ev, n):
+                if kind != mode:
+                    self.err(n, '`?` kind does not match the function return type')
+                return I('none') if mode == 'option' else I('err', e=ev)
+            lctx.on_return = on_return
+            lctx.try_fail = try_fail
+            wrap_ok = (lambda x: I('some', e=x)) if mode == 'option' else (lambda x: I('ok', e=x))
+            ok_ctor = 'Some' if mode == 'option' else 'ROk'
+            self.ctx = lctx
+            try:
+                def kb2(v, t):
+                    st = wrap_ok(Tuple([Var(env_b[n][0]) for n in state]))
+                    return st if v.k == 'unit' else I('seq', s=v, rest=st)
+                body = self.lower_block(e.body, env_b, kb2, set(env_b.keys()))
+            finally:
+                self.ctx = saved
+            acc = self.fresh('st')
+            er = self.fresh('err')
+            if mode == 'option':
+                fail_arm = (PCtor('None'), I('none'))
+                fail_out = (PCtor('None'), saved.try_fail('option', None, e))
+            else:
+                fail_arm = (PCtor('RErr', [PVar(er)]), I('err', e=Var(er)))
+                fail_out = (PCtor('RErr', [PVar(er)]), saved.try_fail('result', Var(er), e))
+            step = Match(Var(acc), [(PCtor(ok_ctor, [spat]), body), fail_arm])
+            fold = I('lfold', spat=PVar(acc), xpat=xpat, body=step, l=l, init=wrap_ok(init))
+            return Match(fold, [(PCtor(ok_ctor, [spat]), k(UNIT, 'unit')), fail_out])
+        return self.lower_iter(e.iter, env, kl)
+
+    def lower_iter(self, it, env, k):
+        """Iterable position of `for`: a list value, `&list`, `list.iter()`, `.rev()`..."""
+        return self.lower(it, env, k)
+
+    # -- calls
+    def call_sig(self, sig, recv, args_ir, args_ty, env, node):
+        """Build the application of a translated function from Rust-order arguments."""
+        if len(args_ir) != len(sig.rust_params):
+            self.err(node, 'call of `%s` with %d arguments, its definition has %d'
+                     % (sig.name, len(args_ir), len(sig.rust_params)))
+        out = []
+        if sig.self_mode == 'record':
+            if recv is None:
+                self.err(node, 'method `%s` called without receiver' % sig.name)
+            unify(recv[1], sig.self_type, self.wh(node))
+            out.append(recv[0])
+        elif sig.self_mode == 'fields':
+            self.err(node, 'method `%s` is translated with flattened self fields and cannot be called from '
+                           'translated code' % sig.name)
+        for (pname, pty, dropped), v, t in zip(sig.rust_params, args_ir, args_ty):
+            if dropped:
+                continue
+            unify(t, pty, self.wh(node) + ' (argument `%s` of %s)' % (pname, sig.name))
+            out.append(v)
+        for xname, xty in sig.extras:
+            if xname not in env:
+                self.err(node, 'callee `%s` has extra parameter `%s` (config "extra_params"); the caller must have a '
+                               'variable of that name in scope' % (sig.name, xname))
+            unify(env[xname][1], xty, self.wh(node))
+            out.append(Var(env[xname][0]))
+        return App(sig.coq, out, safe=sig.coq + '_safe'), sig.ret
+
+    def lower_args_for_sig(self, sig, args, env, k):
+        """Lower call arguments, but do not even look at arguments in dropped positions."""
+        if len(args) != len(sig.rust_params):
+            self.err(args[0] if args else None, 'call of `%s` with %d arguments, its definition has %d'
+                     % (sig.name, len(args), len(sig.rust_params)))
+        keep = [i for i, p in enumerate(sig.rust_params) if not p[2]]
+
+        def k2(irs, tys):
+            full_ir = [UNIT] * len(args)
+            full_ty = ['unit'] * len(args)
+            for i, v, t in zip(keep, irs, tys):
+                full_ir[i] = v
+                full_ty[i] = t
+            return k(full_ir, full_ty)
+        return self.lower_list([args[i] for i in keep], env, k2)
+
+    def lo_call(self, e, env, k):
+        f = e.f
+        if f.k != 'path':
+            self.err(e, 'call of a non-path expression is not supported')
+        segs = f.segs
+        name = segs[-1]
+        wh = self.wh(e)
+        if len(segs) == 1 and name in env:
+            coq, ty = env[name]
+            ty = prune(ty)
+            if not (isinstance(ty, tuple) and ty[0] == 'fn'):
+                self.err(e, '`%s` is not a closure' % name)
+            if len(ty[1]) != len(e.args):
+                self.err(e, 'closure `%s` called with wrong number of arguments' % name)
+
+            def kc(irs, tys):
+                for t, pt in zip(tys, ty[1]):
+                    unify(t, pt, wh)
+                caps = self.fnmut_caps.get(coq)
+                if caps:
+                    # FnMut closure in state-passing style: the captured variables go in and come out
+                    for n in caps:
+                        if n not in env:
+                            self.err(e, 'captured variable `%s` of closure `%s` is not in scope at the call' % (n, name))
+                    st_in = [Var(env[n][0]) for n in caps]
+                    st_pat = PTuple([PVar(env[n][0]) for n in caps])
+                    return Let(st_pat, I('applocal', name=coq, args=st_in + irs), k(UNIT, 'unit'))
+                return k(I('applocal', name=coq, args=irs), ty[2])
+            return self.lower_list(e.args, env, kc)
+        if len(segs) == 1 and name in ('Some', 'Ok') and len(e.args) == 1:
+            def ks(v, t):
+                if name == 'Some':
+                    return k(I('some', e=v), ('option', t))
+                return k(I('ok', e=v), ('result', t))
+            return self.lower(e.args[0], env, ks)
+        if len(segs) == 1 and name == 'Err' and len(e.args) == 1:
+            a = e.args[0]
+            while a.k == 'paren':
+                a = a.e
+            cands = [a]
+            if a.k == 'tuple':
+                cands = [x for x in a.elems if x.k == 'path' and len(x.segs) >= 2]
+                if len(cands) != 1:
+                    self.err(e, 'Err((..)) tuple must contain exactly one enum-variant path')
+            a = cands[0]
+            if a.k == 'unit':
+                return k(I('err', e=I('str', value='()')), ('result', TV()))
+            if a.k == 'path' and len(a.segs) >= 2 and a.segs[-1][:1].isupper():
+                return k(I('err', e=I('str', value=a.segs[-1])), ('result', TV()))
+            if a.k == 'path' and len(a.segs) == 1 and a.segs[0] in env and prune(env[a.segs[0]][1]) == 'str':
+                return k(I('err', e=Var(env[a.segs[0]][0])), ('result', TV()))
+            self.err(e, 'Err(..) argument must be `()`, an enum variant path or an error variable')
+        if len(segs) >= 2 and segs[-2] == 'cmp' and name in ('min', 'max') and len(e.args) == 2:
+            def km(irs, tys):
+                unify(tys[0], tys[1], wh)
+                return k(App('Z.' + name, irs), tys[0])
+            return self.lower_list(e.args, env, km)
+        if len(segs) == 2 and segs[0] in INT and name == 'from' and len(e.args) == 1:
+            return self.lower(e.args[0], env,
+                              lambda v, t: k(I('widen', a=v, src=t, dst=segs[0], line=e.line), segs[0]))
+        if len(segs) == 2 and segs[0] in INT and name == 'try_from' and len(e.args) == 1:
+            return self.lower(e.args[0], env,
+                              lambda v, t: k(I('tryinto', a=v, src=t, dst=segs[0], line=e.line), ('tryres', segs[0])))
+        if len(segs) == 2 and segs[0] in INT and name in ('min', 'max') and len(e.args) == 2:
+            def km2(irs, tys):
+                unify(tys[0], segs[0], wh)
+                unify(tys[1], segs[0], wh)
+                return k(App('Z.' + name, irs), segs[0])
+            return self.lower_list(e.args, env, km2)
+        # translated functions
+        sig = None
+        if len(segs) >= 2 and (segs[-2], name) in self.G.fns:
+            sig = self.G.fns[(segs[-2], name)]
+        elif len(segs) >= 2 and segs[-2] == 'Self' and (self.impl, name) in self.G.fns:
+            sig = self.G.fns[(self.impl, name)]
+        elif (None, name) in self.G.fns and (len(segs) == 1 or not segs[-2][:1].isupper()):
+            sig = self.G.fns[(None, name)]
+        if sig is not None:
+            if sig.self_mode is not None:
+                self.err(e, 'path call of method `%s` is not supported' % name)
+
+            def kf(irs, tys):
+                v, t = self.call_sig(sig, None, irs, tys, env, e)
+                return k(v, t)
+            return self.lower_args_for_sig(sig, e.args, env, kf)
+        self.err(e, 'call of unknown function `%s` (not in this config nor in "import_configs")' % '::'.join(segs))
+
+    def lo_mcall(self, e, env, k):
+        name = e.name
+        wh = self.wh(e)
+        # erased reference noise
+        if name in ('clone', 'to_owned', 'borrow', 'as_ref', 'as_mut', 'deref', 'copied', 'cloned', 'iter',
+                    'into_iter', 'iter_mut', 'by_ref') and not e.args:
+            return self.lower(e.recv, env, k)
+
+        def kr(r, tr):
+            tt = prune(tr)
+            nargs = len(e.args)
+
+            def with_args(n, cont):
+                if nargs != n:
+                    self.err(e, 'method `%s` expects %d argument(s)' % (name, n))
+                return self.lower_list(e.args, env, cont)
+            # ----- integers
+            if is_int(tt) or (isinstance(tt, TV) and tt.kind == 'int'):
+                if isinstance(tt, TV) and name not in ('into',):
+                    pass
+                if name in ('saturating_sub', 'saturating_add', 'saturating_mul', 'wrapping_add', 'wrapping_sub',
+                            'wrapping_mul', 'min', 'max', 'div_ceil', 'abs_diff'):
+                    def c1(irs, tys):
+                        unify(tr, tys[0], wh)
+                        return k(I('intop', op=name, a=r, b=irs[0], ty=tr, line=e.line), tr)
+                    return with_args(1, c1)
+                if name in ('checked_sub', 'checked_add', 'checked_mul', 'checked_div'):
+                    def c2(irs, tys):
+                        unify(tr, tys[0], wh)
+                        return k(I('intop', op=name, a=r, b=irs[0], ty=tr, line=e.line), ('option', tr))
+                    return with_args(1, c2)
+                if name == 'overflowing_div':
+                    def c5(irs, tys):
+                        unify(tr, tys[0], wh)
+                        tt2 = prune(tr)
+                        if is_int(tt2) and INT[tt2][1]:
+                            self.err(e, 'overflowing_div on signed integers is not supported')
+                        return k(I('tuple', es=[Bin('/', r, irs[0], tr), Bool(False)]), ('tuple', (tr, 'bool')))
+                    return with_args(1, c5)
+                if name in ('checked_shr', 'checked_shl'):
+                    def c3(irs, tys):
+                        unify(tys[0], 'u32', wh)
+                        return k(I('intop', op=name, a=r, b=irs[0], ty=tr, line=e.line), ('option', tr))
+                    return with_args(1, c3)
+                if name == 'into' and nargs == 0:
+                    dst = TV('int')
+                    return k(I('widen', a=r, src=tr, dst=dst, line=e.line), dst)
+                if name == 'try_into' and nargs == 0:
+                    dst = TV('int')
+                    return k(I('tryinto', a=r, src=tr, dst=dst, line=e.line), ('tryres', dst))
+                self.err(e, 'unsupported integer method `.%s()`' % name)
+            if isinstance(tt, TV):
+                self.err(e, 'cannot infer the receiver type of `.%s()`' % name)
+            # ----- bool
+            if tt == 'bool':
+                if name == 'then_some':
+                    return with_args(1, lambda irs, tys: k(App('then_some', [r, irs[0]]), ('option', tys[0])))
+                self.err(e, 'unsupported bool method `.%s()`' % name)
+            kind = tt[0] if isinstance(tt, tuple) else None
+            # ----- Option / try_from results
+            if kind in ('option', 'tryres'):
+                inner = tt[1]
+                if name == 'ok' and kind == 'tryres' and nargs == 0:
+                    return k(r, ('option', inner))
+                if name in ('unwrap_or',):
+                    def c4(irs, tys):
+                        unify(inner, tys[0], wh)
+                        return k(App('unwrap_or', [r, irs[0]]), inner)
+                    return with_args(1, c4)
+                if name in ('unwrap', 'expect'):
+                    return k(I('unwrap', o=r, ty=inner, line=e.line), inner)
+                if name in ('is_some', 'is_ok') and nargs == 0:
+                    return k(App('is_some', [r]), 'bool')
+                if name in ('is_none', 'is_err') and nargs == 0:
+                    return k(App('is_none', [r]), 'bool')
+                if kind == 'option' and name in ('map', 'and_then') and nargs == 1:
+                    pats, body, bt = self.lower_lambda(e.args[0], [inner], env, '.%s()' % name)
+                    if name == 'map':
+                        return k(I('optmap', o=r, pat=pats[0], body=body), ('option', bt))
+                    it = TV()
+                    unify(bt, ('option', it), wh)
+                    return k(I('optbind', o=r, pat=pats[0], body=body), ('option', it))
+                if kind == 'option' and name == 'ok_or' and nargs == 1:
+                    a = e.args[0]
+                    if a.k == 'unit':
+                        es = '()'
+                    elif a.k == 'path' and len(a.segs) >= 2:
+                        es = a.segs[-1]
+                    else:
+                        self.err(e, 'ok_or(..) argument must be `()` or an enum variant path')
+                    return k(App('ok_or', [r, I('str', value=es)]), ('result', inner))
+                self.err(e, 'unsupported Option method `.%s()`' % name)
+            if kind == 'result':
+                if name == 'is_ok' and nargs == 0:
+                    return k(App('is_ok', [r]), 'bool')
+                if name == 'is_err' and nargs == 0:
+                    return k(App('is_err', [r]), 'bool')
+                if name == 'ok' and nargs == 0:
+                    return k(App('res_ok', [r]), ('option', tt[1]))
+                if name in ('unwrap', 'expect'):
+                    return k(I('unwrap', o=App('res_ok', [r]), ty=tt[1], line=e.line), tt[1])
+                self.err(e, 'unsupported Result method `.%s()`' % name)
+            # ----- lists / iterators
+            if kind == 'list':
+                el = tt[1]
+                if name == 'rev' and nargs == 0:
+                    return k(App('List.rev', [r]), tt)
+                if name == 'len' and nargs == 0:
+                    return k(I('llen', l=r), 'usize')
+                if name == 'count' and nargs == 0:
+                    return k(I('llen', l=r), 'usize')
+                if name == 'is_empty' and nargs == 0:
+                    return k(Bin('==', I('llen', l=r), Int(0), 'usize'), 'bool')
+                if name == 'sum' and nargs == 0:
+                    targs = [resolve_type(a, self.G, wh, {}, None) for a in e.targs if a.k != 'assoc']
+                    if targs:
+                        unify(el, targs[0], wh)
+                    return k(I('lsum', l=r, ty=el, line=e.line), el)
+                if name in ('map', 'filter', 'filter_map', 'any', 'all') and nargs == 1:
+                    pats, body, bt = self.lower_lambda(e.args[0], [el], env, '.%s()' % name)
+                    if name == 'map':
+                        return k(I('lmap', pat=pats[0], body=body, l=r), ('list', bt))
+                    if name == 'filter':
+                        unify(bt, 'bool', wh)
+                        return k(I('lfilter', pat=pats[0], body=body, l=r), tt)
+                    if name == 'filter_map':
+                        it = TV()
+                        unify(bt, ('option', it), wh)
+                        return k(I('lfiltermap', pat=pats[0], body=body, l=r), ('list', it))
+                    unify(bt, 'bool', wh)
+                    return k(I('lany' if name == 'any' else 'lall', pat=pats[0], body=body, l=r, line=e.line), 'bool')
+                self.err(e, 'unsupported slice/iterator method `.%s()`' % name)
+            # ----- records and enums: feature-style field queries and translated methods
+            if kind in ('record', 'enum'):
+                tname = tt[1]
+                if (tname, name) in self.G.fns:
+                    sig = self.G.fns[(tname, name)]
+
+                    def cm(irs, tys):
+                        v, t = self.call_sig(sig, (r, tr), irs, tys, env, e)
+                        return k(v, t)
+                    return self.lower_args_for_sig(sig, e.args, env, cm)
+                if kind == 'record' and nargs == 0:
+                    rec = self.G.records[tname]
+                    for fname, fty in rec['fields']:
+                        if fname == name:
+                            return k(App(rec['prefix'] + fname, [r]), fty)
+                self.err(e, 'unknown method `.%s()` on %s (neither a translated method nor a declared field)'
+                         % (name, tname))
+            self.err(e, 'unsupported method `.%s()` on a value of type %s' % (name, show_type(tt)))
+        return self.lower(e.recv, env, kr)
+
+
+# ---------------------------------------------------------------------------------------------
+# 6. Desugaring of type-dependent nodes, `_safe` derivation, pretty printer
+# ---------------------------------------------------------------------------------------------
+
+def pow2(w):
+    return Bin('^', Int(2), Int(w), None, checked=False)
+
+
+def conj(parts):
+    parts = [p for p in parts if p is not None]
+    flat = []
+    for p in parts:
+        if p.k == 'and':
+            flat.extend(p.parts)
+        elif p.k == 'bool' and p.value is True:
+            continue
+        else:
+            flat.append(p)
+    if not flat:
+        return None
+    if len(flat) == 1:
+        return flat[0]
+    return I('and', parts=flat)
+
+
+TRUE = Bool(True)
+
+
+class Emitter(object):
+    def __init__(self, where, G):
+        self.where = where
+        self.G = G
+        self.local_safe = {}
+
+    def err(self, node, msg):
+        raise Rs2vError('%s:%s: %s' % (self.where, getattr(node, 'line', '?'), msg))
+
+    def int_info(self, ty, node, what):
+        t = prune(ty)
+        if isinstance(t, str) and t in INT:
+            return INT[t]
+        self.err(node, 'cannot infer the integer type needed for %s (got %s)' % (what, show_type(t)))
+
+    # -- desugar one node (children untouched)
+    def d(self, t):
+        c = getattr(t, '_d', None)
+        if c is not None:
+            return c
+        r = self.d1(t)
+        if not hasattr(r, 'own'):
+            r.own = []
+        t._d = r
+        r._d = r
+        return r
+
+    def d1(self, t):
+        k = t.k
+        if k == 'cast':
+            s = prune(t.src)
+            wd, sd = INT[t.dst]
+            if isinstance(s, TV):
+                if s.kind == 'int' and t.a.k == 'int':
+                    lo = -(2 ** (wd - 1)) if sd else 0
+                    hi = 2 ** (wd - 1) if sd else 2 ** wd
+                    if lo <= t.a.value < hi:
+                        return self.d(t.a)
+                self.err(t, 'cannot infer the source type of `as %s`' % t.dst)
+            if s == 'bool':
+                return App('Z.b2z', [t.a])
+            ws, ss = self.int_info(s, t, 'the source of a cast')
+            if not ss and not sd:
+                return self.d(t.a) if ws <= wd else App('cast_u', [Int(wd), t.a])
+            if not ss and sd:
+                return self.d(t.a) if ws < wd else App('cast_i', [Int(wd), t.a])
+            if ss and not sd:
+                return App('cast_u', [Int(wd), t.a])
+            return self.d(t.a) if ws <= wd else App('cast_i', [Int(wd), t.a])
+        if k == 'widen':
+            ws, ss = self.int_info(t.src, t, 'the source of from()/into()')
+            wd, sd = self.int_info(t.dst, t, 'the target of from()/into()')
+            ok = (ws <= wd) if ss == sd else ((not ss) and sd and ws < wd)
+            if not ok:
+                self.err(t, 'from()/into() between %s and %s is not a lossless widening'
+                         % (show_type(t.src), show_type(t.dst)))
+            return self.d(t.a)
+        if k == 'tryinto':
+            wd, sd = self.int_info(t.dst, t, 'the target of try_into()/try_from()')
+            self.int_info(t.src, t, 'the source of try_into()/try_from()')
+            return App('try_into_i' if sd else 'try_into_u', [Int(wd), t.a])
+        if k == 'intop':
+            w, signed = self.int_info(t.ty, t, 'the receiver of .%s()' % t.op)
+            op = t.op
+            if signed and op not in ('min', 'max'):
+                self.err(t, '.%s() on signed integers is not supported' % op)
+            W = Int(w)
+            table = {
+                'saturating_sub': ('sat_sub', False), 'saturating_add': ('sat_add', True),
+                'saturating_mul': ('sat_mul', True), 'wrapping_add': ('wrap_add', True),
+                'wrapping_sub': ('wrap_sub', True), 'wrapping_mul': ('wrap_mul', True),
+                'min': ('Z.min', False), 'max': ('Z.max', False), 'abs_diff': ('abs_diff', False),
+                'checked_sub': ('chk_sub', False), 'checked_add': ('chk_add', True),
+                'checked_mul': ('chk_mul', True), 'checked_div': ('chk_div', False),
+                'checked_shr': ('chk_shr', True), 'checked_shl': ('chk_shl', True),
+                'div_ceil': ('div_ceil', False)}
+            f, needs_w = table[op]
+            r = App(f, ([W] if needs_w else []) + [t.a, t.b])
+            if op == 'div_ceil' and not (t.b.k == 'int' and t.b.value != 0):
+                r.own = [I('not', a=Bin('==', t.b, Int(0), t.ty))]
+            return r
+        if k == 'unwrap':
+            ty = prune(t.ty)
+            if not (is_int(ty) or (isinstance(ty, TV) and ty.kind == 'int')):
+                self.err(t, '.unwrap() is only supported on Option<integer> (got Option<%s>)' % show_type(ty))
+            r = App('unwrap_z', [t.o])
+            r.own = [App('is_some', [t.o])]
+            return r
+        if k == 'lsum':
+            w, signed = self.int_info(t.ty, t, 'the result of .sum()')
+            if signed:
+                self.err(t, '.sum() over signed integers is not supported')
+            r = App('sum_z', [t.l])
+            r.own = [App('sum_safe', [Int(w), t.l])]
+            return r
+        if k == 'llen':
+            return App('Z.of_nat', [App('List.length', [t.l])])
+        if k == 'bin':
+            op = t.op
+            if op in ('&&', '||') or not t.checked:
+                return t
+            ty = prune(t.ty)
+            if op in ('==', '!='):
+                if ty == 'bool':
+                    r = App('Bool.eqb', [t.a, t.b])
+                elif isinstance(ty, tuple) and ty[0] == 'enum':
+                    if any(v[1] for v in self.G.enums[ty[1]]['variants']):
+                        self.err(t, '`==` on enum %s with data-carrying variants is not supported' % ty[1])
+                    r = App(ty[1] + '_eqb', [t.a, t.b])
+                elif is_int(ty) or (isinstance(ty, TV) and ty.kind == 'int'):
+                    r = I('bin', op='==', a=t.a, b=t.b, ty=ty, checked=False)
+                else:
+                    self.err(t, '`%s` on values of type %s is not supported' % (op, show_type(ty)))
+                if op == '!=':
+                    r.own = []
+                    r._d = r
+                    return I('not', a=r)
+                return r
+            if op in ('<', '<=', '>', '>='):
+                if not (is_int(ty) or (isinstance(ty, TV) and ty.kind == 'int')):
+                    self.err(t, 'ordering comparison on non-integer type %s' % show_type(ty))
+                return I('bin', op=op, a=t.a, b=t.b, ty=ty, checked=False)
+            if ty == 'bool' and op in ('&', '|', '^'):
+                return App({'&': 'andb', '|': 'orb', '^': 'xorb'}[op], [t.a, t.b])
+            w, signed = self.int_info(ty, t, 'operator `%s`' % op)
+            plain = I('bin', op=op, a=t.a, b=t.b, ty=ty, checked=False)
+            plain.own = []
+            plain._d = plain
+            if op in ('+', '*', '-'):
+                r = I('bin', op=op, a=t.a, b=t.b, ty=ty, checked=False)
+                if signed:
+                    r.own = [App('in_i', [Int(w), plain])]
+                elif op == '-':
+                    r.own = [Bin('<=', Int(0), plain, ty, checked=False)]
+                else:
+                    r.own = [Bin('<', plain, pow2(w), ty, checked=False)]
+                return r
+            if op in ('/', '%'):
+                if signed:
+                    self.err(t, 'signed division/remainder is not supported')
+                r = I('bin', op=op, a=t.a, b=t.b, ty=ty, checked=False)
+                if t.b.k == 'int' and t.b.value != 0:
+                    r.own = []      # literal non-zero divisor: statically fine
+                else:
+                    r.own = [I('not', a=Bin('==', t.b, Int(0), ty, checked=False))]
+                return r
+            if signed:
+                self.err(t, 'bit operator `%s` on signed integers is not supported' % op)
+            if op in ('<<', '>>'):
+                if op == '<<':
+                    r = App('cast_u', [Int(w), App('Z.shiftl', [t.a, t.b])])
+                else:
+                    r = App('Z.shiftr', [t.a, t.b])
+                if t.b.k == 'int' and 0 <= t.b.value < w:
+                    r.own = []      # literal in-range shift amount: statically fine
+                else:
+                    r.own = [Bin('<', t.b, Int(w), ty, checked=False)]
+                return r
+            if op in ('&', '|', '^'):
+                return App({'&': 'Z.land', '|': 'Z.lor', '^': 'Z.lxor'}[op], [t.a, t.b])
+            self.err(t, 'unsupported operator `%s`' % op)
+        if k == 'neg':
+            if getattr(t, 'ty', None) is not None:
+                w, _s = self.int_info(t.ty, t, 'unary minus')
+                r = I('neg', a=t.a)
+                r.own = [App('in_i', [Int(w), I('neg', a=t.a)])]
+                return r
+            return t
+        if k == 'panic':
+            r = I('default', ty=t.ty)
+            r.own = [Bool(False)]
+            return r
+        return t
+
+    # -- `_safe`: IR -> bool IR (None = trivially true)
+    def safe(self, t0):
+        t = self.d(t0)
+        k = t.k
+        own = conj(list(t.own)) if t.own else None
+        if k in ('var', 'int', 'bool', 'unit', 'str', 'none', 'default'):
+            return own
+        if k == 'tuple':
+            return conj([self.safe(x) for x in t.es] + [own])
+        if k == 'bin':
+            if t.op == '&&':
+                sb = self.safe(t.b)
+                return conj([self.safe(t.a), App('implb', [t.a, sb]) if sb is not None else None])
+            if t.op == '||':
+                sb = self.safe(t.b)
+                return conj([self.safe(t.a), I('bin', op='||', a=t.a, b=sb, ty='bool', checked=False)
+                             if sb is not None else None])
+            return conj([self.safe(t.a), self.safe(t.b), own])
+        if k in ('not', 'neg'):
+            return conj([self.safe(t.a), own])
+        if k in ('some', 'ok', 'err'):
+            return self.safe(t.e)
+        if k == 'app':
+            parts = [self.safe(x) for x in t.args]
+            if t.safe:
+                parts.append(App(t.safe, t.args))
+            return conj(parts + [own])
+        if k == 'applocal':
+            parts = [self.safe(x) for x in t.args]
+            if self.local_safe.get(t.name):
+                parts.append(I('applocal', name=t.name + '_safe', args=t.args))
+            return conj(parts)
+        if k == 'checked':
+            return conj([self.safe(t.c), t.c, self.safe(t.body)])
+        if k == 'seq':
+            return conj([self.safe(t.s), self.safe(t.rest)])
+        if k == 'let':
+            sb = self.safe(t.body)
+            se = self.safe(t.e)
+            if sb is None:
+                return se
+            return conj([se, Let(t.pat, t.e, sb)])
+        if k == 'letfun':
+            sf = self.safe(t.body)
+            old = self.local_safe.get(t.name)
+            self.local_safe[t.name] = sf is not None
+            try:
+                sr = self.safe(t.rest)
+            finally:
+                if old is None:
+                    self.local_safe.pop(t.name, None)
+                else:
+                    self.local_safe[t.name] = old
+            if sr is None:
+                return None
+            inner = sr
+            if sf is not None:
+                inner = I('letfun', name=t.name + '_safe', pats=t.pats, body=sf, rest=sr)
+            return I('letfun', name=t.name, pats=t.pats, body=t.body, rest=inner)
+        if k == 'if':
+            sa, sb = self.safe(t.a), self.safe(t.b)
+            sc = self.safe(t.c)
+            if sa is None and sb is None:
+                return sc
+            return conj([sc, If(t.c, sa or TRUE, sb or TRUE)])
+        if k == 'match':
+            ss = self.safe(t.s)
+            arms = [(p, self.safe(b)) for p, b in t.arms]
+            if all(s is None for _, s in arms):
+                return ss
+            return conj([ss, Match(t.s, [(p, s or TRUE) for p, s in arms])])
+        if k in ('optmap', 'optbind'):
+            sb = self.safe(t.body)
+            so = self.safe(t.o)
+            if sb is None:
+                return so
+            return conj([so, Match(t.o, [(PCtor('Some', [t.pat]), sb), (PCtor('None'), TRUE)])])
+        if k in ('lmap', 'lfilter', 'lfiltermap'):
+            sb = self.safe(t.body)
+            sl = self.safe(t.l)
+            if sb is None:
+                return sl
+            return conj([sl, App('List.forallb', [Lam([t.pat], sb), t.l])])
+        if k in ('lany', 'lall'):
+            sb = self.safe(t.body)
+            if sb is not None:
+                self.err(t, '.any()/.all() with a predicate that can panic is not supported (short-circuit '
+                            'evaluation makes the exact panic condition order-dependent)')
+            return self.safe(t.l)
+        if k == 'lfold':
+            sb = self.safe(t.body)
+            parts = [self.safe(t.l), self.safe(t.init)]
+            if sb is not None:
+                parts.append(App('fold_safe', [Lam([t.spat, t.xpat], t.body), Lam([t.spat, t.xpat], sb), t.l, t.init]))
+            return conj(parts)
+        if k == 'lam':
+            return None
+        if k == 'and':
+            return conj([self.safe(p) for p in t.parts])
+        self.err(t, 'internal: no safety rule for IR node %s' % k)
+
+    # -- pretty printer
+    WIDTH = 100
+    BINOPS = {'+': (50, '+'), '-': (50, '-'), '*': (40, '*'), '/': (40, '/'), '%': (40, 'mod'), '^': (30, '^'),
+              '==': (70, '=?'), '<': (70, '<?'), '<=': (70, '<=?'), '>': (70, '<?'), '>=': (70, '<=?'),
+              '&&': (40, '&&'), '||': (50, '||')}
+
+    def view(self, t0):
+        """Desugar and map sugar nodes onto the core printing kinds."""
+        t = self.d(t0)
+        k = t.k
+        if k == 'checked':
+            return self.view(t.body)
+        if k == 'seq':
+            return self.view(t.rest)
+        if k == 'not':
+            return App('negb', [t.a])
+        if k == 'some':
+            return App('Some', [t.e])
+        if k == 'ok':
+            return App('ROk', [t.e])
+        if k == 'err':
+            return App('RErr', [t.e])
+        if k == 'none':
+            return Var('None')
+        if k == 'optmap':
+            return App('option_map', [Lam([t.pat], t.body), t.o])
+        if k == 'optbind':
+            return App('opt_bind', [t.o, Lam([t.pat], t.body)])
+        if k == 'lmap':
+            return App('List.map', [Lam([t.pat], t.body), t.l])
+        if k == 'lfilter':
+            return App('List.filter', [Lam([t.pat], t.body), t.l])
+        if k == 'lfiltermap':
+            return App('filter_map', [Lam([t.pat], t.body), t.l])
+        if k == 'lany':
+            return App('List.existsb', [Lam([t.pat], t.body), t.l])
+        if k == 'lall':
+            return App('List.forallb', [Lam([t.pat], t.body), t.l])
+        if k == 'lfold':
+            return App('List.fold_left', [Lam([t.spat, t.xpat], t.body), t.l, t.init])
+        if k == 'applocal':
+            return App(t.name, t.args)
+        if k == 'default':
+            return self.default_value(t.ty, t)
+        if k == 'bin' and t.op in ('>', '>='):
+            return I('bin', op={'>': '<', '>=': '<='}[t.op], a=t.b, b=t.a, ty=t.ty, checked=False, own=[])
+        if k == 'and':
+            r = t.parts[0]
+            for p in t.parts[1:]:
+                r = I('bin', op='&&', a=r, b=p, ty='bool', checked=False, own=[])
+            r.is_chain = True
+            r.parts = t.parts
+            return r
+        return t
+
+    def default_value(self, ty, node):
+        t = prune(ty)
+        if isinstance(t, TV):
+            if t.kind == 'int':
+                return Int(0)
+            self.err(node, 'cannot infer the type of a panicking expression')
+        if isinstance(t, str):
+            if t in INT:
+                return Int(0)
+            if t == 'bool':
+                return Bool(False)
+            if t == 'unit':
+                return UNIT
+        elif t[0] in ('option', 'tryres'):
+            return Var('None')
+        elif t[0] == 'result':
+            return App('RErr', [I('str', value='panic')])
+        elif t[0] == 'list':
+            return Var('nil')
+        elif t[0] == 'tuple':
+            return I('tuple', es=[self.default_value(x, node) for x in t[1]])
+        self.err(node, 'no placeholder value for a panicking expression of type %s' % show_type(t))
+
+    def pat(self, p, top=True):
+        k = p.k
+        if k == 'pvar':
+            return p.name
+        if k == 'pwild':
+            return '_'
+        if k == 'ptuple':
+            return '(' + ', '.join(self.pat(x, True) for x in p.ps) + ')'
+        if k == 'pbool':
+            return 'true' if p.value else 'false'
+        if k == 'pint':
+            return str(p.value) if p.value >= 0 else '(%d)' % p.value
+        if k == 'pctor':
+            if not p.ps:
+                return p.c
+            s = p.c + ' ' + ' '.join(self.pat(x, False) for x in p.ps)
+            return s if top else '(' + s + ')'
+        if k == 'por':
+            s = ' | '.join(self.pat(x, True) for x in p.ps)
+            return s if top else '(' + s + ')'
+        self.err(p, 'internal: unknown pattern kind ' + k)
+
+    def binder(self, p):
+        if p.k == 'pvar':
+            return p.name
+        if p.k == 'pwild':
+            return '_'
+        return "'" + self.pat(p, False)
+
+    def has_let(self, t0):
+        t = self.view(t0)
+        c = getattr(t, '_hl', None)
+        if c is not None:
+            return c
+        k = t.k
+        if k in ('let', 'letfun'):
+            r = True
+        elif k in ('var', 'int', 'bool', 'unit', 'str'):
+            r = False
+        elif k == 'tuple':
+            r = any(self.has_let(x) for x in t.es)
+        elif k == 'bin':
+            r = self.has_let(t.a) or self.has_let(t.b)
+        elif k == 'neg':
+            r = self.has_let(t.a)
+        elif k == 'app':
+            r = any(self.has_let(x) for x in t.args)
+        elif k == 'if':
+            r = self.has_let(t.c) or self.has_let(t.a) or self.has_let(t.b)
+        elif k == 'match':
+            r = self.has_let(t.s) or any(self.has_let(b) for _, b in t.arms)
+        elif k == 'lam':
+            r = self.has_let(t.body)
+        else:
+            self.err(t, 'internal: has_let on ' + k)
+        t._hl = r
+        return r
+
+    def flat(self, t0):
+        """-> (text, level)"""
+        t = self.view(t0)
+        k = t.k
+        if k == 'var':
+            return t.name, 0
+        if k == 'int':
+            return (str(t.value), 0) if t.value >= 0 else ('(%d)' % t.value, 0)
+        if k == 'bool':
+            return ('true' if t.value else 'false'), 0
+        if k == 'unit':
+            return 'tt', 0
+        if k == 'str':
+            return '"%s"%%string' % t.value, 0
+        if k == 'tuple':
+            return '(' + ', '.join(self.P(x, 200) for x in t.es) + ')', 0
+        if k == 'neg':
+            return '(- ' + self.P(t.a, 34) + ')', 0
+        if k == 'bin':
+            lvl, sym = self.BINOPS[t.op]
+            la, lb = self.child_levels(t)
+            return '%s %s %s' % (self.P(t.a, la), sym, self.P(t.b, lb)), lvl
+        if k == 'app':
+            if not t.args:
+                return t.f, 0
+            return t.f + ' ' + ' '.join(self.P(x, 9) for x in t.args), 10
+        if k == 'let':
+            return 'let %s := %s in %s' % (self.binder(t.pat), self.P(t.e, 200), self.P(t.body, 200)), 200
+        if k == 'letfun':
+            return 'let %s := fun %s => %s in %s' % (t.name, ' '.join(self.binder(p) for p in t.pats),
+                                                     self.P(t.body, 200), self.P(t.rest, 200)), 200
+        if k == 'if':
+            return 'if %s then %s else %s' % (self.P(t.c, 200), self.P(t.a, 200), self.P(t.b, 200)), 200
+        if k == 'match':
+            arms = ' '.join('| %s => %s' % (self.pat(p), self.P(b, 200)) for p, b in t.arms)
+            return 'match %s with %s end' % (self.P(t.s, 200), arms), 0
+        if k == 'lam':
+            return 'fun %s => %s' % (' '.join(self.binder(p) for p in t.pats), self.P(t.body, 200)), 200
+        self.err(t, 'internal: cannot print IR node ' + k)
+
+    def child_levels(self, t):
+        lvl, _ = self.BINOPS[t.op]
+        if t.op == '^':
+            return 29, 30
+        if lvl == 70:
+            return 69, 69
+        if t.op == '||':
+            a = self.view(t.a)
+            return (50 if (a.k == 'bin' and a.op == '||') else 39), 39
+        return lvl, lvl - 1
+
+    def P(self, t, maxlvl):
+        s, lvl = self.flat(t)
+        return '(' + s + ')' if lvl > maxlvl else s
+
+    def level(self, t0):
+        t = self.view(t0)
+        k = t.k
+        if k in ('var', 'int', 'bool', 'unit', 'str', 'tuple', 'neg', 'match'):
+            return 0
+        if k == 'bin':
+            return self.BINOPS[t.op][0]
+        if k == 'app':
+            return 10 if t.args else 0
+        return 200
+
+    def F(self, t0, ind, maxlvl):
+        """Multi-line rendering; continuation lines are indented by `ind` columns."""
+        t = self.view(t0)
+        if not self.has_let(t):
+            s = self.P(t, maxlvl)
+            if ind + len(s) <= self.WIDTH:
+                return s
+        lvl = self.level(t)
+        if lvl > maxlvl:
+            return '(' + self.F1(t, ind + 1) + ')'
+        return self.F1(t, ind)
+
+    def F1(self, t, ind):
+        k = t.k
+        pad = ' ' * ind
+        if k == 'let':
+            prefix = 'let %s := ' % self.binder(t.pat)
+            rhs = None
+            if not self.has_let(t.e):
+                s1 = self.P(t.e, 200)
+                if ind + len(prefix) + len(s1) + 3 <= self.WIDTH:
+                    rhs = prefix + s1
+            if rhs is None:
+                ev = self.view(t.e)
+                cand = prefix + self.F(t.e, ind + 2, 200) if ev.k in ('match', 'if') else None
+                if cand is not None and ind + len(cand.split('\n')[0]) <= self.WIDTH:
+                    rhs = cand
+                else:
+                    rhs = prefix.rstrip() + '\n' + ' ' * (ind + 4) + self.F(t.e, ind + 4, 200)
+            return '%s in\n%s%s' % (rhs, pad, self.F(t.body, ind, 200))
+        if k == 'letfun':
+            head = 'let %s := fun %s =>' % (t.name, ' '.join(self.binder(p) for p in t.pats))
+            body = self.F(t.body, ind + 4, 200)
+            if '\n' not in body and ind + len(head) + len(body) + 4 <= self.WIDTH:
+                first = head + ' ' + body + ' in'
+            else:
+                first = head + '\n' + ' ' * (ind + 4) + body + ' in'
+            return first + '\n' + pad + self.F(t.rest, ind, 200)
+        if k == 'if':
+            s = 'if %s then\n%s  %s\n%selse' % (self.F(t.c, ind + 3, 200), pad, self.F(t.a, ind + 2, 200), pad)
+            b = self.view(t.b)
+            if b.k == 'if':
+                return s + ' ' + self.F(b, ind, 200)
+            return s + '\n' + pad + '  ' + self.F(b, ind + 2, 200)
+        if k == 'match':
+            out = ['match %s with' % self.F(t.s, ind + 6, 200)]
+            for p, b in t.arms:
+                head = '| %s =>' % self.pat(p)
+                body = self.F(b, ind + 4, 200)
+                if '\n' not in body and ind + len(head) + 1 + len(body) <= self.WIDTH:
+                    out.append(pad + head + ' ' + body)
+                else:
+                    out.append(pad + head + '\n' + ' ' * (ind + 4) + body)
+            out.append(pad + 'end')
+            return '\n'.join(out)
+        if k == 'bin':
+            if getattr(t, 'is_chain', False):
+                return (' &&\n' + pad).join(self.F(p, ind, 39) for p in t.parts)
+            la, lb = self.child_levels(t)
+            sym = self.BINOPS[t.op][1]
+            return '%s %s\n%s%s' % (self.F(t.a, ind, la), sym, pad, self.F(t.b, ind, lb))
+        if k == 'app':
+            lines = []
+            cur = t.f
+            curlen = ind + len(t.f)
+            for a in t.args:
+                s1 = None if self.has_let(a) else self.P(a, 9)
+                if s1 is not None and curlen + 1 + len(s1) <= self.WIDTH:
+                    cur += ' ' + s1
+                    curlen += 1 + len(s1)
+                    continue
+                lines.append(cur)
+                txt = self.F(a, ind + 2, 9)
+                cur = ' ' * (ind + 2) + txt
+                curlen = len(cur.split('\n')[-1])
+            lines.append(cur)
+            return '\n'.join(lines)
+        if k == 'lam':
+            return 'fun %s =>\n%s  %s' % (' '.join(self.binder(p) for p in t.pats), pad, self.F(t.body, ind + 2, 200))
+        if k == 'tuple':
+            return '(' + (',\n' + pad + ' ').join(self.F(x, ind + 1, 200) for x in t.es) + ')'
+        if k == 'neg':
+            return '(- ' + self.F(t.a, ind + 3, 34) + ')'
+        return self.P(t, 200)
+
+
+# ---------------------------------------------------------------------------------------------
+# 7. Module driver
+# ---------------------------------------------------------------------------------------------
+
+_FILE_CACHE = {}
+_MODULE_CACHE = {}
+
+
+def file_index(repo, rel, cfg):
+    key = (repo, rel, cfg.key())
+    if key not in _FILE_CACHE:
+        path = os.path.join(repo, rel)
+        if not os.path.isfile(path):
+            raise Rs2vError('source file not found: %s' % rel)
+        _FILE_CACHE[key] = FileIndex(path, rel, cfg)
+    return _FILE_CACHE[key]
+
+
+def sanitize_comment(s):
+    return s.replace('*)', '* )').replace('(*', '( *').replace('"', "'").replace('\n', ' ')
+
+
+def apply_rewrites(text, rewrites, where):
+    notes = []
+    for rw in rewrites or []:
+        if not (isinstance(rw, list) and len(rw) == 2):
+            raise Rs2vError('%s: malformed rewrite %r (want [regex, replacement])' % (where, rw))
+        try:
+            text, n = re.subn(rw[0], rw[1], text)
+        except re.error as ex:
+            raise Rs2vError('%s: bad rewrite regex %r: %s' % (where, rw[0], ex))
+        if n == 0:
+            raise Rs2vError('%s: rewrite regex %r matches nothing (the source changed?)' % (where, rw[0]))
+        notes.append('s/%s/%s/ x%d' % (rw[0], rw[1], n))
+    return text, notes
+
+
+def group_params(params):
+    out = []
+    for name, ty in params:
+        if out and out[-1][1] == ty and sum(len(x) + 1 for x in out[-1][0]) + len(name) + len(ty) < 84:
+            out[-1][0].append(name)
+        else:
+            out.append(([name], ty))
+    return ' '.join('(%s : %s)' % (' '.join(ns), ty) for ns, ty in out)
+
+
+class Unit(object):
+    """One config item being translated."""
+    pass
+
+
+class Module(object):
+    def __init__(self, config, repo, config_dir):
+        self.config = config
+        self.repo = repo
+        self.config_dir = config_dir
+        self.name = config.get('module')
+        if not self.name:
+            raise Rs2vError('config lacks "module"')
+        self.cfg = Cfg(config.get('features', []), config.get('cfg_flags', []))
+        self.G = Globals()
+        self.exports = Globals()
+        self.imports = list(config.get('imports', []))
+        self.units = []
+        self.meta = []
+
+    # -- config pieces
+    def load_imports(self):
+        for rel in self.config.get('import_configs', []):
+            path = os.path.join(self.config_dir, rel)
+            key = (os.path.abspath(path), self.repo)
+            if key not in _MODULE_CACHE:
+                if not os.path.isfile(path):
+                    raise Rs2vError('import_configs: %s not found' % path)
+                with open(path) as f:
+                    sub = json.load(f)
+                m = Module(sub, self.repo, os.path.dirname(os.path.abspath(path)))
+                m.run()
+                _MODULE_CACHE[key] = m
+            m = _MODULE_CACHE[key]
+            if sorted(m.cfg.features) != sorted(self.cfg.features) or sorted(m.cfg.flags) != sorted(self.cfg.flags):
+                raise Rs2vError('module %s: imported config %s uses different features/cfg_flags' % (self.name, rel))
+            self.G.copy_from(m.exports)
+            lib = 'LdkV.Gen.' + m.name
+            if lib not in self.imports:
+                self.imports.append(lib)
+
+    def declare_types(self):
+        wh = 'config %s' % self.name
+        recs = self.config.get('records', {})
+        enums = self.config.get('enums', {})
+        # names first (records may mention each other)
+        for rn in recs:
+            self.G.records[rn] = dict(fields=[], prefix=None, ctor='mk' + rn, local=True)
+        for en in enums:
+            self.G.enums[en] = dict(variants=[], local=True)
+        for en, vs in enums.items():
+            variants = []
+            for v in vs:
+                if isinstance(v, str):
+                    variants.append((v, None))
+                elif isinstance(v, dict) and len(v) == 1:
+                    (vn, fields), = v.items()
+                    variants.append((vn, [(fn, type_from_string(ft, self.G, wh)) for fn, ft in fields.items()] or None))
+                else:
+                    raise Rs2vError('%s: malformed enum variant %r' % (wh, v))
+            self.G.enums[en]['variants'] = variants
+        for rn, fields in recs.items():
+            prefix = fields.get('_prefix', rn.lower() + '_') if isinstance(fields, dict) else None
+            fl = [(fn, type_from_string(ft, self.G, wh)) for fn, ft in fields.items() if not fn.startswith('_')]
+            self.G.records[rn]['fields'] = fl
+            self.G.records[rn]['prefix'] = prefix
+        for rn, rel in self.config.get('record_sources', {}).items():
+            self.check_record_source(rn, rel)
+        for rn in recs:
+            self.exports.records[rn] = dict(self.G.records[rn], local=False)
+        for en in enums:
+            self.exports.enums[en] = dict(self.G.enums[en], local=False)
+
+    def check_record_source(self, rn, rel):
+        if rn not in self.G.records:
+            raise Rs2vError('record_sources: %s is not a declared record' % rn)
+        fi = file_index(self.repo, rel, self.cfg)
+        it = fi.find('struct', rn)
+        toks = tokenize(fi.text[it.pos:it.end], rel, it.line_start)
+        sd = Parser(toks, '%s:struct %s' % (rel, rn), self.cfg).parse_struct_item()
+        actual = {}
+        for fname, fty in sd.fields:
+            actual[fname] = resolve_type(fty, self.G, rel, {}, None)
+        for fname, fty in self.G.records[rn]['fields']:
+            if fname not in actual:
+                raise Rs2vError('%s: struct %s has no field `%s` (config record is stale)' % (rel, rn, fname))
+            if show_type(actual[fname]) != show_type(fty):
+                raise Rs2vError('%s: struct %s field `%s` has type %s, config says %s'
+                                % (rel, rn, fname, show_type(actual[fname]), show_type(fty)))
+        extra = [f for f in actual if f not in dict(self.G.records[rn]['fields'])]
+        if extra and not self.config.get('record_partial', {}).get(rn):
+            raise Rs2vError('%s: struct %s has fields %s not present in the config record (list them, or set '
+                            '"record_partial": {"%s": true} to model only a projection)' % (rel, rn, extra, rn))
+
+    # -- locating sources
+    def locate(self, item):
+        kind = item['kind']
+        rel = item.get('file')
+        if not rel:
+            raise Rs2vError('item %r lacks "file"' % item.get('name'))
+        fi = file_index(self.repo, rel, self.cfg)
+        u = Unit()
+        u.item = item
+        u.kind = kind
+        u.rel = rel
+        u.fi = fi
+        if kind in ('fn', 'method'):
+            impl = item.get('impl')
+            if kind == 'method' and not impl:
+                raise Rs2vError('method item `%s` needs "impl"' % item.get('name'))
+            it = fi.find('fn', item['name'], impl=impl, what='fn `%s`' % item['name'])
+            u.pos, u.end, u.ls, u.le = it.pos, it.end, it.line_start, it.line_end
+        elif kind == 'const' or (kind == 'assert_const' and 'anchor' not in item):
+            it = fi.find('const', item['name'], impl=item.get('impl'), in_fn=item.get('in_fn'))
+            u.pos, u.end, u.ls, u.le = it.pos, it.end, it.line_start, it.line_end
+        elif kind == 'assert_const':
+            m = self.unique_anchor(fi, item)
+            cands = [it for it in fi.items if it.kind == 'const' and it.active and it.end > m.start()]
+            cands.sort(key=lambda it: it.pos)
+            if not cands:
+                raise Rs2vError('%s: no const item at or after anchor %r' % (rel, item['anchor']))
+            it = cands[0]
+            u.pos, u.end, u.ls, u.le = it.pos, it.end, it.line_start, it.line_end
+        elif kind == 'expr':
+            m = self.unique_anchor(fi, item)
+            sel = item.get('select', 'if_cond')
+            toks = fi.toks
+            # first token at or after the anchor start
+            idx = self._tok_at(fi, m.start())
+            kw = 'if' if sel == 'if_cond' else 'let' if sel == 'let_init' else None
+            if kw is None:
+                raise Rs2vError('expr item %s: unknown "select" %r' % (item.get('name'), sel))
+            while idx < len(toks) and not (toks[idx].k == 'id' and toks[idx].s == kw):
+                idx += 1
+            if idx >= len(toks) - 1:
+                raise Rs2vError('%s: no `%s` at or after anchor %r' % (rel, kw, item['anchor']))
+            if sel == 'if_cond':
+                if toks[idx + 1].s == 'let':
+                    raise Rs2vError('%s: anchored `if` is an `if let`' % rel)
+                j = idx + 1
+                while j < len(toks) - 1:
+                    t = toks[j]
+                    if t.k == 'p' and t.s == '{':
+                        break
+                    if t.k == 'p' and t.s in ('(', '['):
+                        j = match_delim(toks, j, rel)
+                    j += 1
+                first, last = idx + 1, j - 1
+            else:
+                j = idx + 1
+                while j < len(toks) - 1 and not (toks[j].k == 'p' and toks[j].s == '='):
+                    if toks[j].k == 'p' and toks[j].s in _OPEN:
+                        j = match_delim(toks, j, rel)
+                    j += 1
+                first = j + 1
+                j = first
+                while j < len(toks) - 1:
+                    t = toks[j]
+                    if t.k == 'p' and t.s == ';':
+                        break
+                    if t.k == 'p' and t.s in _OPEN:
+                        j = match_delim(toks, j, rel)
+                    j += 1
+                last = j - 1
+            if last < first:
+                raise Rs2vError('%s: empty anchored expression for %s' % (rel, item.get('name')))
+            u.pos, u.end = toks[first].pos, toks[last].end
+            u.ls, u.le = toks[first].line, toks[last].line
+        else:
+            raise Rs2vError('unknown item kind %r' % kind)
+        u.src = fi.text[u.pos:u.end]
+        u.sha = hashlib.sha256(u.src.encode('utf-8')).hexdigest()[:16]
+        where = '%s:%s' % (rel, item.get('name'))
+        u.where = where
+        u.text, u.rw_notes = apply_rewrites(u.src, item.get('rewrites'), where)
+        u.toks = tokenize(u.text, where, u.ls)
+        u.idents = set(t.s for t in u.toks if t.k == 'id')
+        u.rust_name = item.get('name')
+        u.coq = item.get('as', item.get('name'))
+        return u
+
+    def _tok_at(self, fi, pos):
+        if not hasattr(fi, '_tokpos'):
+            fi._tokpos = [t.pos for t in fi.toks]
+        return bisect.bisect_left(fi._tokpos, pos)
+
+    def unique_anchor(self, fi, item):
+        anchor = item.get('anchor')
+        if not anchor:
+            raise Rs2vError('item %s needs an "anchor" regex' % item.get('name'))
+        ms = list(re.finditer(anchor, fi.text))
+        if len(ms) != 1:
+            raise Rs2vError('%s: anchor %r for `%s` matches %d times (must match exactly once)'
+                            % (fi.rel, anchor, item.get('name'), len(ms)))
+        return ms[0]
+
+    # -- signatures
+    def prepare(self, u):
+        item = u.item
+        kind = u.kind
+        p = Parser(u.toks, u.where, self.cfg)
+        wh = u.where
+        if kind in ('fn', 'method'):
+            ast = p.parse_fn_item()
+            u.ast = ast
+            sig = FnSig()
+            sig.coq = u.coq
+            sig.name = item['name']
+            sig.impl = item.get('impl')
+            self_type = None
+            if sig.impl and sig.impl in self.G.records:
+                self_type = ('record', sig.impl)
+            elif sig.impl and sig.impl in self.G.enums:
+                self_type = ('enum', sig.impl)
+            if ast.has_self:
+                if item.get('self_record'):
+                    rn = item['self_record']
+                    if rn not in self.G.records and rn not in self.G.enums:
+                        raise Rs2vError('%s: self_record %s is not a declared record/enum' % (wh, rn))
+                    sig.self_mode = 'record'
+                    sig.self_type = ('record', rn) if rn in self.G.records else ('enum', rn)
+                    self_type = sig.self_type
+                elif 'self_fields' in item:
+                    sig.self_mode = 'fields'
+                    sig.self_fields = [(fn, type_from_string(ft, self.G, wh)) for fn, ft in item['self_fields'].items()]
+                else:
+                    sig.self_mode = 'unused'
+            drops = set(item.get('drop_params', []))
+            overrides = item.get('param_types', {})
+            seen = set()
+            for pat, tyast in ast.params:
+                if pat.k == 'pbind':
+                    pname = pat.name
+                elif pat.k == 'pwild':
+                    pname = '_'
+                else:
+                    raise Rs2vError('%s: destructuring parameter patterns are not supported' % wh)
+                seen.add(pname)
+                if pname in drops:
+                    sig.rust_params.append((pname, None, True))
+                    continue
+                if pname in overrides:
+                    ty = type_from_string(overrides[pname], self.G, wh)
+                else:
+                    ty = resolve_type(tyast, self.G, wh, ast.generics, self_type)
+                if isinstance(ty, tuple) and ty[0] == 'opaque':
+                    raise Rs2vError('%s: parameter `%s` has unsupported type `%s`; list it in "drop_params", declare '
+                                    'the type in "records"/"enums", or give "param_types"' % (wh, pname, ty[1]))
+                sig.rust_params.append((pname, ty, False))
+            for d in drops:
+                if d not in seen:
+                    raise Rs2vError('%s: drop_params names `%s`, which is not a parameter' % (wh, d))
+            sig.extras = [(n, type_from_string(t, self.G, wh)) for n, t in item.get('extra_params', [])]
+            sig.ret = resolve_type(ast.ret, self.G, wh, ast.generics, self_type) if ast.ret is not None else 'unit'
+            u.sig = sig
+            key = (sig.impl, sig.name)
+            if key in self.G.fns and getattr(self.G.fns[key], 'module', None) == self.name:
+                raise Rs2vError('%s: duplicate item' % wh)
+            sig.module = self.name
+            self.G.fns[key] = sig
+            self.exports.fns[key] = sig
+        elif kind == 'const':
+            ast = p.parse_const_item()
+            u.ast = ast
+            ty = resolve_type(ast.ty, self.G, wh, {}, None)
+            if not (is_int(ty) or ty == 'bool'):
+                raise Rs2vError('%s: only integer and bool constants are supported (type %s)' % (wh, show_type(ty)))
+            u.ty = ty
+            self.G.consts[item['name']] = (u.coq, ty)
+            self.exports.consts[item['name']] = (u.coq, ty)
+        elif kind == 'assert_const':
+            ast = p.parse_const_item()
+            u.ast = ast
+            init = ast.init
+            if not (init.k == 'macro' and init.name == 'assert'):
+                raise Rs2vError('%s: assert_const item is not of the form `const _: () = assert!(..);`' % wh)
+            if 'as' not in item and ast.name == '_':
+                raise Rs2vError('%s: anonymous assert const needs "as"' % wh)
+            u.coq = item.get('as', ast.name) + '_holds'
+        elif kind == 'expr':
+            u.ast = p.parse_whole_expr()
+            u.coq = item.get('as', item['name'])
+
+    # -- lowering + emission of one unit
+    def emit_unit(self, u):
+        item = u.item
+        kind = u.kind
+        wh = u.where
+        lo = Lower(self.G, self.cfg, wh, u.idents, item, item.get('impl'))
+        em = Emitter(wh, self.G)
+        note = ''
+        if u.rw_notes:
+            note = ' rewrites: ' + ' ; '.join(u.rw_notes)
+        extra_notes = []
+        if item.get('drop_params'):
+            extra_notes.append('dropped params: ' + ', '.join(item['drop_params']))
+        if item.get('extra_params'):
+            extra_notes.append('extra params: ' + ', '.join('%s: %s' % (n, t) for n, t in item['extra_params']))
+        if item.get('param_types'):
+            extra_notes.append('param types: ' + ', '.join('%s: %s' % kv for kv in sorted(item['param_types'].items())))
+        if extra_notes:
+            note += ' ' + ' ; '.join(extra_notes)
+        comment = '(* rs2v: %s:%d-%d sha256:%s%s *)' % (u.rel, u.ls, u.le, u.sha, sanitize_comment(note))
+        out = [comment]
+        sigtext = None
+        if kind == 'const':
+            ctx = Ctx(u.ty, 'fn')
+            ctx.on_return = lambda v, t, n: lo.err(n, '`return` in a const initializer')
+            ctx.try_fail = lambda kind_, ev, n: lo.err(n, '`?` in a const initializer')
+            lo.ctx = ctx
+
+            def kc(v, t):
+                unify(t, u.ty, wh)
+                return v
+            ir = lo.lower(u.ast.init, {}, kc)
+            cty = coq_type(u.ty, wh)
+            out.append('Definition %s : %s :=\n  %s.' % (u.coq, cty, em.F(ir, 2, 200)))
+            if self.config.get('hint_db'):
+                out.append('#[global] Hint Unfold %s : %s.' % (u.coq, self.config['hint_db']))
+            sigtext = '%s : %s' % (u.coq, cty)
+        elif kind == 'assert_const':
+            ctx = Ctx('unit', 'fn')
+            ctx.on_return = lambda v, t, n: lo.err(n, '`return` in a const initializer')
+            ctx.try_fail = lambda kind_, ev, n: lo.err(n, '`?` in a const initializer')
+            lo.ctx = ctx
+            parts = lo.macro_args(u.ast.init)
+            cond = lo.parse_tokens_expr(parts[0], u.ast.init)
+            ir, t = lo.pure(cond, {})
+            unify(t, 'bool', wh)
+            out.append('Definition %s : bool :=\n  %s.' % (u.coq, em.F(ir, 2, 200)))
+            sigtext = '%s : bool' % u.coq
+        else:
+            env = {}
+            params = []   # (coq name, coq type)
+            if kind == 'expr':
+                body_ast = u.ast
+                ptys = []
+                for n, t in item.get('params', []):
+                    ty = type_from_string(t, self.G, wh)
+                    env, coq = lo.bind(env, n, ty)
+                    params.append((coq, coq_type(ty, wh)))
+                ret = type_from_string(item['result'], self.G, wh) if item.get('result') else TV()
+                clos_params = []
+                if body_ast.k == 'closure':
+                    c = body_ast
+                    for pat, tyast in c.params:
+                        if pat.k != 'pbind':
+                            raise Rs2vError('%s: closure parameter must be a simple name' % wh)
+                        if tyast is not None:
+                            ty = resolve_type(tyast, self.G, wh, {}, None)
+                        elif pat.name in item.get('param_types', {}):
+                            ty = type_from_string(item['param_types'][pat.name], self.G, wh)
+                        else:
+                            ty = TV()
+                        env, coq = lo.bind(env, pat.name, ty)
+                        clos_params.append((coq, ty))
+                    if c.ret is not None:
+                        unify(ret, resolve_type(c.ret, self.G, wh, {}, None), wh)
+                    body_ast = c.body
+            else:
+                sig = u.sig
+                ast = u.ast
+                ret = sig.ret
+                if sig.self_mode == 'record':
+                    env, coq = lo.bind(env, 'self', sig.self_type)
+                    params.append((coq, coq_type(sig.self_type, wh)))
+                elif sig.self_mode == 'fields':
+                    lo.self_mode = 'fields'
+                    for fn, ty in sig.self_fields:
+                        lo.self_fields[fn] = ('self_' + fn, ty)
+                        params.append(('self_' + fn, coq_type(ty, wh)))
+                for pname, ty, dropped in sig.rust_params:
+                    if dropped:
+                        continue
+                    env, coq = lo.bind(env, pname, ty)
+                    params.append((coq, coq_type(ty, wh)))
+                for n, ty in sig.extras:
+                    env, coq = lo.bind(env, n, ty)
+                    params.append((coq, coq_type(ty, wh)))
+                body_ast = ast.body
+                clos_params = []
+            ctx = Ctx(ret, 'fn')
+
+            def on_return(v, t, n):
+                unify(t, ret, lo.wh(n))
+                return v
+
+            def try_fail(kind_, ev, n):
+                rt = prune(ret)
+                if kind_ == 'option':
+                    if not (isinstance(rt, tuple) and rt[0] == 'option'):
+                        lo.err(n, '`?` on an Option in a function that does not return Option')
+                    return I('none')
+                if not (isinstance(rt, tuple) and rt[0] == 'result'):
+                    lo.err(n, '`?` on a Result in a function that does not return Result')
+                return I('err', e=ev)
+            ctx.on_return = on_return
+            ctx.try_fail = try_fail
+            lo.ctx = ctx
+            ir = lo.lower_scoped(body_ast, env, lambda v, t: on_return(v, t, body_ast), None)
+            for coq, ty in clos_params:
+                params.append((coq, coq_type(ty, wh)))
+            rty = coq_type(ret, wh)
+            ptxt = group_params(params)
+            head = 'Definition %s%s : %s :=' % (u.coq, (' ' + ptxt) if ptxt else '', rty)
+            if len(head) > 100:
+                head = 'Definition %s\n    %s\n    : %s :=' % (u.coq, ptxt.replace(') (', ')\n    ('), rty)
+            out.append('%s\n  %s.' % (head, em.F(ir, 2, 200)))
+            sf = em.safe(ir)
+            if sf is None:
+                sf = TRUE
+            head2 = 'Definition %s_safe%s : bool :=' % (u.coq, (' ' + ptxt) if ptxt else '')
+            if len(head2) > 100:
+                head2 = 'Definition %s_safe\n    %s\n    : bool :=' % (u.coq, ptxt.replace(') (', ')\n    ('))
+            out.append('')
+            out.append('%s\n  %s.' % (head2, em.F(sf, 2, 200)))
+            sigtext = '%s %s : %s' % (u.coq, ptxt, rty)
+        self.meta.append(dict(name=u.coq, kind=kind, file=u.rel, line_start=u.ls, line_end=u.le, sha=u.sha,
+                              signature=sigtext, rewrites=list(u.rw_notes)))
+        return '\n'.join(out)
+
+    def type_decls(self):
+        out = []
+        for en, vs in self.config.get('enums', {}).items():
+            info = self.G.enums[en]
+            ctors = []
+            for vn, fields in info['variants']:
+                if fields:
+                    ctors.append('| %s_%s %s' % (en, vn, ' '.join('(%s : %s)' % (fn, coq_type(ft, en)) for fn, ft in fields)))
+                else:
+                    ctors.append('| %s_%s' % (en, vn))
+            out.append('(* rs2v: enum %s declared by the config (abstraction of the Rust enum) *)' % en)
+            out.append('Inductive %s : Type :=\n%s.' % (en, '\n'.join(ctors)))
+            if not any(f for _, f in info['variants']):
+                arms = ['  | %s_%s, %s_%s => true' % (en, vn, en, vn) for vn, _ in info['variants']]
+                if len(info['variants']) > 1:
+                    arms.append('  | _, _ => false')
+                out.append('Definition %s_eqb (a b : %s) : bool :=\n  match a, b with\n%s\n  end.'
+                           % (en, en, '\n'.join(arms)))
+            out.append('')
+        for rn in self.config.get('records', {}):
+            info = self.G.records[rn]
+            fields = ';\n'.join('  %s%s : %s' % (info['prefix'], fn, coq_type(ft, rn)) for fn, ft in info['fields'])
+            src = self.config.get('record_sources', {}).get(rn)
+            out.append('(* rs2v: record %s declared by the config%s *)'
+                       % (rn, (', checked against struct in %s' % src) if src else ' (abstraction; not checked against a struct)'))
+            out.append('Record %s : Type := %s {\n%s\n}.' % (rn, info['ctor'], fields))
+            out.append('')
+        return out
+
+    def run(self):
+        self.load_imports()
+        self.declare_types()
+        items = self.config.get('items', [])
+        units = [self.locate(it) for it in items]
+        names = {}
+        for u in units:
+            if u.coq in names:
+                raise Rs2vError('module %s: two items would be emitted as `%s`' % (self.name, u.coq))
+            names[u.coq] = u
+        for u in units:
+            self.prepare(u)
+        # dependency order (stable w.r.t. config order)
+        by_rust = {}
+        for u in units:
+            if u.kind in ('fn', 'method', 'const'):
+                by_rust.setdefault(u.rust_name, []).append(u)
+        order = []
+        state = {}
+
+        def visit(u, stack):
+            st = state.get(id(u))
+            if st == 2:
+                return
+            if st == 1:
+                raise Rs2vError('module %s: cyclic dependency through %s' % (self.name, ' -> '.join(x.coq for x in stack + [u])))
+            state[id(u)] = 1
+            for ident in sorted(u.idents):
+                for d in by_rust.get(ident, []):
+                    if d is not u:
+                        visit(d, stack + [u])
+            state[id(u)] = 2
+            order.append(u)
+        for u in units:
+            visit(u, [])
+        chunks = [self.emit_unit(u) for u in order]
+        cfg_hash = hashlib.sha256(json.dumps(self.config, sort_keys=True).encode('utf-8')).hexdigest()[:16]
+        hdr = ['(* GENERATED by tools/rs2v/rs2v.py -- DO NOT EDIT.  Regenerated from the Rust sources on every run.',
+               '   module: %s   config sha256: %s   features: %s   cfg_flags: %s *)'
+               % (self.name, cfg_hash, ','.join(self.cfg.features and sorted(self.cfg.features)) or '-',
+                  ','.join(sorted(self.cfg.flags)) or '-'),
+               'From Coq Require Import ZArith Bool List String.',
+               'Require Import LdkV.Prim.U64 LdkV.Prim.Rs2vLib.']
+        for lib in self.imports:
+            hdr.append('Require Import %s.' % lib)
+        hdr.append('Open Scope Z_scope.')
+        if self.config.get('hint_db'):
+            hdr.append('Create HintDb %s.' % self.config['hint_db'])
+        hdr.append('')
+        body = self.type_decls() + ['\n\n'.join(chunks)]
+        self.text = '\n'.join(hdr) + '\n' + '\n'.join(body) + '\n'
+        return self.text
+
+
+def translate_with_meta(config, repo='/repo', config_dir=None):
+    if config_dir is None:
+        config_dir = config.get('config_dir') or os.path.join(os.path.dirname(os.path.abspath(__file__)), 'configs')
+    m = Module(config, repo, config_dir)
+    text = m.run()
+    return text, m.meta
+
+
+def translate(config, repo='/repo'):
+    return translate_with_meta(config, repo)[0]
+
+
+def write_if_changed(path, text):
+    try:
+        with open(path, 'r') as f:
+            if f.read() == text:
+                return False
+    except IOError:
+        pass
+    d = os.path.dirname(path)
+    if d and not os.path.isdir(d):
+        os.makedirs(d)
+    with open(path, 'w') as f:
+        f.write(text)
+    return True
+
+
+def main(argv=None):
+    argv = list(sys.argv[1:] if argv is None else argv)
+    repo = '/repo'
+    meta_out = None
+    while argv and argv[0].startswith('--') and argv[0] not in ('--all',):
+        if argv[0] == '--repo':
+            repo = argv[1]
+            argv = argv[2:]
+        elif argv[0] == '--meta':
+            meta_out = argv[1]
+            argv = argv[2:]
+        else:
+            sys.stderr.write('unknown option %s\n' % argv[0])
+            return 64
+    try:
+        if argv and argv[0] == '--all':
+            cdir, odir = argv[1], argv[2]
+            allmeta = {}
+            for fn in sorted(os.listdir(cdir)):
+                if not fn.endswith('.json'):
+                    continue
+                with open(os.path.join(cdir, fn)) as f:
+                    cfg = json.load(f)
+                try:
+                    text, meta = translate_with_meta(cfg, repo, os.path.abspath(cdir))
+                except Rs2vError as ex:
+                    raise Rs2vError('[%s] %s' % (fn, ex))
+                allmeta[cfg['module']] = meta
+                changed = write_if_changed(os.path.join(odir, cfg['module'] + '.v'), text)
+                print('%s -> %s%s' % (fn, os.path.join(odir, cfg['module'] + '.v'), '' if changed else ' (unchanged)'))
+            if meta_out:
+                write_if_changed(meta_out, json.dumps(allmeta, indent=1, sort_keys=True) + '\n')
+            return 0
+        if len(argv) != 2:
+            sys.stderr.write('usage: rs2v.py [--repo DIR] [--meta META.json] CONFIG.json OUT.v\n'
+                             '       rs2v.py [--repo DIR] [--meta META.json] --all CONFIG_DIR OUT_DIR\n')
+            return 64
+        with open(argv[0]) as f:
+            cfg = json.load(f)
+        text, meta = translate_with_meta(cfg, repo, os.path.dirname(os.path.abspath(argv[0])))
+        write_if_changed(argv[1], text)
+        if meta_out:
+            write_if_changed(meta_out, json.dumps({cfg['module']: meta}, indent=1, sort_keys=True) + '\n')
+        return 0
+    except Rs2vError as ex:
+        print('RS2V-REFUSED: %s' % ex)
+        return 2
+
+
+if __name__ == '__main__':
+    sys.exit(main())
